@@ -1,8 +1,14 @@
 (* MergeP.v -- proofs about Merge.v (property C14).
    Plan: (A) list utilities, (B) what match_eq means, (C) the duplicate-instance cache invariant, (D) a relation
    MStep that describes one lyd_merge_sibling_r step without cache / flag requests and its soundness for merge_sib,
-   (E) Canon is kept, (F) identities stay unique, (G) source content is contained / the rest is kept,
-   (H) merge into the empty tree, (I) idempotence. *)
+   (E) Canon is kept, (F) identities stay unique, (G) source content is contained / the rest is kept (by instance path),
+   (I) idempotence for sources without duplicate-instance lists (relation level; superseded by L), (H) merge into the
+   empty tree, (J) level-wise view of the relation: unmatched children are kept, leaf-list values are contained,
+   subtrees the target lacks are copied, (K) positional matching: kth, the absorbed relation AbsN, the cache invariants
+   CI2 (second merge) and E1 / E2 (first merge), idempotence with config false leaf-lists, (L) the same at full strength:
+   updating with a fully equal instance changes only default flags (dp_stmt), merge_idempotent_full, (M) full positional
+   containment merge_absorbs, (N) level-wise view of the function (level_fn): duplicate instances below an addressable
+   node stay fully equal. *)
 From Coq Require Import Permutation Sorted.
 From LY Require Import Base Tree TreeP Merge.
 From Coq Require Import ZifyBool ZifyNat ZifyN.
@@ -1535,3 +1541,1615 @@ Proof.
   - apply (canon_strongly_sorted sch None S HS).
   - apply HU.
 Qed.
+
+(* ------------------------------------------------------------------------------------------- *)
+(* J. level-wise view: instances of duplicate-instance lists                                     *)
+(* ------------------------------------------------------------------------------------------- *)
+(* a sibling that no source sibling matches is still there, identical (any kind of node, also an instance of a
+   duplicate-instance list, which has no instance path) *)
+Lemma MFold_unmatched_kept sch o l : forall a b t,
+  MFold (MStep sch o) l a b -> In t a -> (forall z, In z l -> match_eq sch z t = false) -> In t b.
+Proof.
+  induction l as [|x l IH]; intros a b t H Ht Hno; cbn [MFold] in H; [subst; exact Ht|].
+  destruct H as [m [H1 H2]]. apply (IH m b t H2); [|intros z Hz; apply Hno; right; exact Hz].
+  rewrite MStep_unfold in H1. destruct H1 as [[_ ->]|[i [tz [t2 [Hn [Hm [-> _]]]]]]]; [apply In_insert_old, Ht|].
+  destruct (In_replace_nth_old i a t2 tz t Hn Ht) as [E|E]; [|exact E].
+  subst tz. rewrite (Hno x (or_introl eq_refl)) in Hm. discriminate.
+Qed.
+
+(* a source leaf-list instance (also of a config false leaf-list, where equal values may repeat) has an instance with
+   its value among the merged siblings *)
+Lemma MFold_leaflist_contained sch o l : forall a b x,
+  MFold (MStep sch o) l a b -> In x l -> kind_of sch (d_sid x) = KLeafList ->
+  exists x', In x' b /\ d_sid x' = d_sid x /\ d_val x' = d_val x.
+Proof.
+  assert (Hstable : forall l a b s v, MFold (MStep sch o) l a b -> kind_of sch s = KLeafList ->
+                                      (exists t, In t a /\ d_sid t = s /\ d_val t = v) ->
+                                      exists t, In t b /\ d_sid t = s /\ d_val t = v).
+  { clear. induction l as [|z l IH]; intros a b s v H Hk [t [Ht [Hs Hv]]]; cbn [MFold] in H; [subst; exists t; auto|].
+    destruct H as [m [H1 H2]]. apply (IH m b s v H2 Hk).
+    rewrite MStep_unfold in H1. destruct H1 as [[_ ->]|[i [tz [t2 [Hn [Hm [-> [Hs2 [_ [Hv2 _]]]]]]]]]].
+    - exists t. split; [apply In_insert_old, Ht|split; assumption].
+    - destruct (In_replace_nth_old i a t2 tz t Hn Ht) as [E|E]; [|exists t; split; [exact E|split; assumption]].
+      subst tz. exists t2. split; [apply (In_replace_nth_new i a t2 t Hn)|]. split; [congruence|].
+      rewrite Hv2. unfold new_val. rewrite merge_value_leaflist_val; [exact Hv|]. rewrite Hs. exact Hk. }
+  induction l as [|z l IH]; intros a b x H Hx Hk; [contradiction|]. cbn [MFold] in H. destruct H as [m [H1 H2]].
+  destruct Hx as [<-|Hx]; [|apply (IH m b x H2 Hx Hk)].
+  apply (Hstable l m b (d_sid z) (d_val z) H2 Hk).
+  rewrite MStep_unfold in H1. destruct H1 as [[_ ->]|[i [t [t2 [Hn [Hm [-> [Hs2 [_ [Hv2 _]]]]]]]]]].
+  - exists z. split; [apply insert_node_In; left; reflexivity|split; reflexivity].
+  - exists t2. split; [apply (In_replace_nth_new i a t2 t Hn)|].
+    pose proof (match_eq_sid _ _ _ Hm) as Hst. split; [congruence|].
+    rewrite Hv2. unfold new_val. rewrite merge_value_leaflist_val; [|rewrite Hst; exact Hk].
+    (* the matched instance has the value of the source instance *)
+    unfold match_eq in Hm. apply andb_true_iff in Hm. destruct Hm as [_ Hm].
+    unfold multi in Hm. rewrite Hk in Hm.
+    destruct (dup_inst sch (d_sid z)) eqn:Ed.
+    + rewrite deq_unfold in Hm. apply andb_true_iff in Hm. destruct Hm as [Hm _]. apply andb_true_iff in Hm. destruct Hm as [_ Hm].
+      apply beq_bytes_eq in Hm. congruence.
+    + unfold same_inst, has_id, inst_id in Hm. rewrite Hst, Ed, Hk in Hm. apply iid_eqb_eq in Hm. congruence.
+Qed.
+
+Section Level.
+  Variable sch : schema.
+  Variable o : mopts.
+  Hypothesis Hsch : schema_okb sch = true.
+
+  (* a key child is a leaf *)
+  Lemma key_child_leaf p x y :
+    CanonN sch p x -> In y (d_ch x) -> is_key sch (d_sid y) = true -> kind_of sch (d_sid y) = KLeaf.
+  Proof.
+    intros HC Hy Hk. pose proof (CanonN_parents_ok sch p x HC) as Hp.
+    unfold is_key in Hk. rewrite (Hp y Hy) in Hk. apply existsb_exists in Hk. destruct Hk as [k [Hk Ek]].
+    apply N.eqb_eq in Ek. subst k.
+    destruct x as [s v d m ch]. apply CanonN_unfold in HC. destruct HC as [[si [Hl _]] _]. cbn [d_sid] in Hk.
+    unfold sget in Hk. rewrite Hl in Hk. destruct (schema_ok_entry sch s si Hsch Hl) as [_ Hleaf]. apply Hleaf, Hk.
+  Qed.
+
+  Lemma lookup_path_nonkeys_some p x q n :
+    CanonN sch p x -> UniqN sch x -> lookup_path sch (d_ch x) q = Some n -> is_term sch (d_sid n) = false ->
+    lookup_path sch (nonkeys sch (d_ch x)) q = Some n.
+  Proof.
+    intros HC HN Hq Ht. destruct q as [|j q']; [discriminate|]. rewrite lookup_path_cons in *.
+    destruct (find_inst sch (d_ch x) j) as [y|] eqn:Ey; [|discriminate].
+    destruct (find_inst_some _ _ _ _ Ey) as [Hyin Hyid].
+    assert (Cy : CanonN sch (Some (d_sid x)) y).
+    { pose proof (CanonAt_children sch p x HC) as [_ HF]. rewrite Forall_forall in HF. apply HF, Hyin. }
+    destruct (is_key sch (d_sid y)) eqn:Ek.
+    - exfalso. pose proof (key_child_leaf p x y HC Hyin Ek) as Hkl.
+      assert (Hyt : is_term sch (d_sid y) = true) by (unfold is_term; rewrite Hkl; reflexivity).
+      destruct q' as [|j2 q''].
+      + inversion Hq; subst n. congruence.
+      + rewrite (CanonN_term_nil sch _ y Cy Hyt) in Hq. rewrite lookup_path_cons in Hq. discriminate.
+    - apply UniqN_unfold in HN.
+      assert (Hn : find_inst sch (nonkeys sch (d_ch x)) j = Some y).
+      { apply uniq_find; [apply UniqL_nonkeys, HN| |exact Hyid]. apply filter_In. split; [exact Hyin|rewrite Ek; reflexivity]. }
+      rewrite Hn. exact Hq.
+  Qed.
+
+  (* the merge works level by level: where target and source both have an inner node at an instance path, the merged
+     tree has one too and its children are the target node's children with the source node's children merged in *)
+  Lemma merge_level_fold : forall q p l a b nT nS,
+    MFold (MStep sch o) l a b -> CanonAt sch p a -> UniqIds sch a ->
+    Forall (CanonN sch p) l -> Forall (UniqN sch) l -> UniqL sch l ->
+    lookup_path sch a q = Some nT -> lookup_path sch l q = Some nS -> is_term sch (d_sid nS) = false ->
+    exists nR, lookup_path sch b q = Some nR /\
+               MFold (MStep sch o) (nonkeys sch (d_ch nS)) (d_ch nT) (d_ch nR).
+  Proof.
+    induction q as [|j q' IHq]; intros p l; [intros a b nT nS _ _ _ _ _ _ H; discriminate|].
+    induction l as [|x l IHl]; intros a b nT nS HF Ha HUa HC HN HUl Hqa Hql Hterm; [rewrite lookup_path_cons in Hql; discriminate|].
+    cbn [MFold] in HF. destruct HF as [m [H1 H2]].
+    inversion HC as [|? ? Cx HC']; subst. inversion HN as [|? ? Nx HN']; subst.
+    assert (Cm : CanonAt sch p m) by (apply (MStep_canon sch o x p a m); assumption).
+    assert (Um : UniqIds sch m) by (apply (MStep_uniq sch o x p a m); assumption).
+    destruct (has_id sch j x) eqn:Ex.
+    - apply has_id_inst in Ex.
+      rewrite lookup_path_cons in Hql. unfold find_inst in Hql. cbn [find] in Hql. rewrite (has_id_self _ _ _ Ex) in Hql.
+      rewrite lookup_path_cons in Hqa.
+      destruct (find_inst sch a j) as [t0|] eqn:Et0; [|discriminate].
+      destruct (find_inst_some _ _ _ _ Et0) as [Ht0in Ht0id].
+      (* the rest of the source siblings does not touch the instance j *)
+      assert (Hrest : find_inst sch b j = find_inst sch m j).
+      { apply (MFold_find_other sch o p l m b j HC' H2). intros z Hz E.
+        pose proof (UniqL_head_other sch x l j HUl (has_id_self _ _ _ Ex) z Hz) as Hf.
+        rewrite (has_id_self _ _ _ E) in Hf. discriminate. }
+      rewrite lookup_path_cons, Hrest.
+      rewrite MStep_unfold in H1.
+      destruct H1 as [[Hno ->]|[i [t [t2 [Hn [Hmt [-> [Hs [_ [Hv [_ HFold]]]]]]]]]]].
+      + exfalso. destruct Hno as [Hno|Hd]; [|apply inst_id_none in Hd; congruence].
+        specialize (Hno t0 Ht0in). rewrite (match_eq_has_id sch x j Ex) in Hno. congruence.
+      + assert (Htj : has_id sch j t = true) by (rewrite <- (match_eq_has_id sch x j Ex); exact Hmt).
+        pose proof (uniq_find sch a t j (proj1 HUa) (nth_error_In _ _ Hn) Htj) as Hf. rewrite Et0 in Hf. inversion Hf; subst t0.
+        assert (Hp : parents_ok sch x) by (apply (CanonN_parents_ok sch p), Cx).
+        assert (Hid : inst_id sch t2 = inst_id sch t) by (apply (upd_inst_id sch o x t t2 Hp Hmt Hs Hv HFold)).
+        rewrite (find_replace_uniq sch a i t t2 j (proj1 HUa) Hn Htj Hid).
+        apply MFoldK_MFold in HFold.
+        destruct q' as [|j2 q''].
+        * inversion Hqa; subst nT. inversion Hql; subst nS. exists t2. split; [reflexivity|exact HFold].
+        * assert (Ct : CanonN sch p t) by (apply (CanonAt_In sch p a t Ha), Ht0in).
+          assert (Hst : d_sid t = d_sid x) by (apply (match_eq_sid _ _ _ Hmt)).
+          apply (IHq (Some (d_sid x)) (nonkeys sch (d_ch x)) (d_ch t) (d_ch t2) nT nS HFold).
+          -- rewrite <- Hst. apply (CanonAt_children sch p t Ct).
+          -- apply UniqN_unfold. destruct HUa as [_ HUa]. rewrite Forall_forall in HUa. apply HUa, Ht0in.
+          -- apply Forall_nonkeys. destruct x as [s v d mt ch]. apply CanonN_unfold in Cx. apply Cx.
+          -- apply Forall_nonkeys. apply UniqN_unfold in Nx. apply Nx.
+          -- apply UniqL_nonkeys. apply UniqN_unfold in Nx. apply Nx.
+          -- exact Hqa.
+          -- apply (lookup_path_nonkeys_some p x (j2 :: q'') nS Cx Nx Hql Hterm).
+          -- exact Hterm.
+    - assert (Hne : inst_id sch x <> Some j) by (intro E; rewrite (has_id_self _ _ _ E) in Ex; discriminate).
+      apply (IHl m b nT nS H2 Cm Um HC' HN' (UniqL_tail sch x l HUl)); [| |exact Hterm].
+      + rewrite lookup_path_cons in *. rewrite (MStep_find_other sch o x p a m j Cx H1 Hne). exact Hqa.
+      + rewrite lookup_path_cons in *. unfold find_inst in *. cbn [find] in Hql. rewrite Ex in Hql. exact Hql.
+  Qed.
+
+  Lemma lookup_path_canon : forall q p f n, CanonAt sch p f -> lookup_path sch f q = Some n -> exists pp, CanonN sch pp n.
+  Proof.
+    induction q as [|j q IH]; intros p f n HC H; [discriminate|].
+    rewrite lookup_path_cons in H. destruct (find_inst sch f j) as [y|] eqn:Ey; [|discriminate].
+    destruct (find_inst_some _ _ _ _ Ey) as [Hy _]. pose proof (CanonAt_In sch p f y HC Hy) as Cy.
+    destruct q as [|j2 q']; [inversion H; subst; exists p; exact Cy|].
+    apply (IH (Some (d_sid y)) (d_ch y) n (CanonAt_children sch p y Cy) H).
+  Qed.
+
+  Theorem merge_level T S path nT nS :
+    Canon sch T -> Canon sch S -> UniqIds sch T -> UniqIds sch S ->
+    lookup_path sch T path = Some nT -> lookup_path sch S path = Some nS -> is_term sch (d_sid nS) = false ->
+    exists nR, lookup_path sch (merge sch o T S) path = Some nR /\
+               MFold (MStep sch o) (nonkeys sch (d_ch nS)) (d_ch nT) (d_ch nR).
+  Proof.
+    intros HT HS HUT HUS H1 H2 H3.
+    apply (merge_level_fold path None S T (merge sch o T S) nT nS (merge_sound sch o T S HS) HT HUT (proj2 HS) (proj2 HUS) (proj1 HUS) H1 H2 H3).
+  Qed.
+
+  (* instances of duplicate-instance lists below a node both trees have (they have no instance path of their own):
+     a target instance that no source sibling equals is kept as it is; every source leaf-list instance has an instance
+     with its value in the merged node *)
+  Theorem merge_keeps_unmatched_child T S path nT nS t :
+    Canon sch T -> Canon sch S -> UniqIds sch T -> UniqIds sch S ->
+    lookup_path sch T path = Some nT -> lookup_path sch S path = Some nS -> is_term sch (d_sid nS) = false ->
+    In t (d_ch nT) -> (forall z, In z (d_ch nS) -> match_eq sch z t = false) ->
+    exists nR, lookup_path sch (merge sch o T S) path = Some nR /\ In t (d_ch nR).
+  Proof.
+    intros HT HS HUT HUS H1 H2 H3 Ht Hno.
+    destruct (merge_level T S path nT nS HT HS HUT HUS H1 H2 H3) as [nR [HR HF]]. exists nR. split; [exact HR|].
+    apply (MFold_unmatched_kept sch o _ _ _ t HF Ht). intros z Hz. apply filter_In in Hz. apply Hno, Hz.
+  Qed.
+
+  Theorem merge_contains_leaflist_child T S path nT nS x :
+    Canon sch T -> Canon sch S -> UniqIds sch T -> UniqIds sch S ->
+    lookup_path sch T path = Some nT -> lookup_path sch S path = Some nS -> is_term sch (d_sid nS) = false ->
+    In x (d_ch nS) -> kind_of sch (d_sid x) = KLeafList ->
+    exists nR x', lookup_path sch (merge sch o T S) path = Some nR /\ In x' (d_ch nR) /\
+                  d_sid x' = d_sid x /\ d_val x' = d_val x.
+  Proof.
+    intros HT HS HUT HUS H1 H2 H3 Hx Hk.
+    destruct (merge_level T S path nT nS HT HS HUT HUS H1 H2 H3) as [nR [HR HF]].
+    assert (Hxn : In x (nonkeys sch (d_ch nS))).
+    { apply filter_In. split; [exact Hx|]. apply negb_true_iff.
+      destruct (is_key sch (d_sid x)) eqn:Ek; [|reflexivity]. exfalso.
+      (* a key is a leaf *)
+      destruct path as [|j q]; [discriminate|].
+      destruct (lookup_path_canon (j :: q) None S nS HS H2) as [pp Cn].
+      pose proof (key_child_leaf pp nS x Cn Hx Ek). congruence. }
+    destruct (MFold_leaflist_contained sch o _ _ _ x HF Hxn Hk) as [x' [H4 [H5 H6]]].
+    exists nR, x'. repeat split; assumption.
+  Qed.
+
+  (* the same at the top level *)
+  Theorem merge_keeps_unmatched_top T S t :
+    Canon sch S -> In t T -> (forall z, In z S -> match_eq sch z t = false) -> In t (merge sch o T S).
+  Proof. intros HS Ht Hno. apply (MFold_unmatched_kept sch o S T _ t (merge_sound sch o T S HS) Ht Hno). Qed.
+
+  Theorem merge_contains_leaflist_top T S x :
+    Canon sch S -> In x S -> kind_of sch (d_sid x) = KLeafList ->
+    exists x', In x' (merge sch o T S) /\ d_sid x' = d_sid x /\ d_val x' = d_val x.
+  Proof. intros HS Hx Hk. apply (MFold_leaflist_contained sch o S T _ x (merge_sound sch o T S HS) Hx Hk). Qed.
+End Level.
+
+Section Copied.
+  Variable sch : schema.
+  Variable o : mopts.
+  Hypothesis Hsch : schema_okb sch = true.
+
+  (* a source inner node whose instance path the target does not have is in the merged tree as it is (copied with its
+     whole subtree, or part of a copied subtree) *)
+  Lemma copied_fold : forall q p l a b n,
+    MFold (MStep sch o) l a b -> CanonAt sch p a -> UniqIds sch a ->
+    Forall (CanonN sch p) l -> Forall (UniqN sch) l -> UniqL sch l ->
+    lookup_path sch a q = None -> lookup_path sch l q = Some n -> is_term sch (d_sid n) = false ->
+    lookup_path sch b q = Some n.
+  Proof.
+    induction q as [|j q' IHq]; intros p l; [intros a b n _ _ _ _ _ _ _ H; discriminate|].
+    induction l as [|x l IHl]; intros a b n HF Ha HUa HC HN HUl Hqa Hql Hterm; [rewrite lookup_path_cons in Hql; discriminate|].
+    cbn [MFold] in HF. destruct HF as [m [H1 H2]].
+    inversion HC as [|? ? Cx HC']; subst. inversion HN as [|? ? Nx HN']; subst.
+    assert (Cm : CanonAt sch p m) by (apply (MStep_canon sch o x p a m); assumption).
+    assert (Um : UniqIds sch m) by (apply (MStep_uniq sch o x p a m); assumption).
+    destruct (has_id sch j x) eqn:Ex.
+    - apply has_id_inst in Ex.
+      rewrite lookup_path_cons in Hql. unfold find_inst in Hql. cbn [find] in Hql. rewrite (has_id_self _ _ _ Ex) in Hql.
+      assert (Hrest : find_inst sch b j = find_inst sch m j).
+      { apply (MFold_find_other sch o p l m b j HC' H2). intros z Hz E.
+        pose proof (UniqL_head_other sch x l j HUl (has_id_self _ _ _ Ex) z Hz) as Hf.
+        rewrite (has_id_self _ _ _ E) in Hf. discriminate. }
+      rewrite lookup_path_cons, Hrest.
+      rewrite lookup_path_cons in Hqa.
+      rewrite MStep_unfold in H1.
+      destruct H1 as [[Hno ->]|[i [t [t2 [Hn [Hmt [-> [Hs [_ [Hv [_ HFold]]]]]]]]]]].
+      + (* copied *)
+        destruct Hno as [Hno|Hd]; [|apply inst_id_none in Hd; congruence].
+        rewrite (find_inst_insert_new sch a x j); [exact Hql| |apply has_id_self, Ex].
+        intros y Hy. rewrite <- (match_eq_has_id sch x j Ex). apply Hno, Hy.
+      + assert (Htj : has_id sch j t = true) by (rewrite <- (match_eq_has_id sch x j Ex); exact Hmt).
+        pose proof (uniq_find sch a t j (proj1 HUa) (nth_error_In _ _ Hn) Htj) as Hf. rewrite Hf in Hqa.
+        assert (Hp : parents_ok sch x) by (apply (CanonN_parents_ok sch p), Cx).
+        assert (Hid : inst_id sch t2 = inst_id sch t) by (apply (upd_inst_id sch o x t t2 Hp Hmt Hs Hv HFold)).
+        rewrite (find_replace_uniq sch a i t t2 j (proj1 HUa) Hn Htj Hid).
+        destruct q' as [|j2 q'']; [discriminate|].
+        apply MFoldK_MFold in HFold.
+        assert (Ct : CanonN sch p t) by (apply (CanonAt_In sch p a t Ha), (nth_error_In _ _ Hn)).
+        assert (Hst : d_sid t = d_sid x) by (apply (match_eq_sid _ _ _ Hmt)).
+        apply (IHq (Some (d_sid x)) (nonkeys sch (d_ch x)) (d_ch t) (d_ch t2) n HFold).
+        * rewrite <- Hst. apply (CanonAt_children sch p t Ct).
+        * apply UniqN_unfold. destruct HUa as [_ HUa]. rewrite Forall_forall in HUa. apply HUa, (nth_error_In _ _ Hn).
+        * apply Forall_nonkeys. destruct x as [s v d mt ch]. apply CanonN_unfold in Cx. apply Cx.
+        * apply Forall_nonkeys. apply UniqN_unfold in Nx. apply Nx.
+        * apply UniqL_nonkeys. apply UniqN_unfold in Nx. apply Nx.
+        * exact Hqa.
+        * apply (lookup_path_nonkeys_some sch Hsch p x (j2 :: q'') n Cx Nx Hql Hterm).
+        * exact Hterm.
+    - assert (Hne : inst_id sch x <> Some j) by (intro E; rewrite (has_id_self _ _ _ E) in Ex; discriminate).
+      apply (IHl m b n H2 Cm Um HC' HN' (UniqL_tail sch x l HUl)); [| |exact Hterm].
+      + rewrite lookup_path_cons in *. rewrite (MStep_find_other sch o x p a m j Cx H1 Hne). exact Hqa.
+      + rewrite lookup_path_cons in *. unfold find_inst in *. cbn [find] in Hql. rewrite Ex in Hql. exact Hql.
+  Qed.
+
+  Theorem merge_copies_new T S path n :
+    Canon sch T -> Canon sch S -> UniqIds sch T -> UniqIds sch S ->
+    lookup_path sch T path = None -> lookup_path sch S path = Some n -> is_term sch (d_sid n) = false ->
+    lookup_path sch (merge sch o T S) path = Some n.
+  Proof.
+    intros HT HS HUT HUS H1 H2 H3.
+    apply (copied_fold path None S T (merge sch o T S) n (merge_sound sch o T S HS) HT HUT (proj2 HS) (proj2 HUS) (proj1 HUS) H1 H2 H3).
+  Qed.
+
+  (* every leaf-list instance (config false leaf-lists included) below an inner source node that has an instance path has
+     an instance with its value below the node at that path in the merged tree - whether or not the target has the node *)
+  Theorem merge_contains_leaflist_below T S path nS x :
+    Canon sch T -> Canon sch S -> UniqIds sch T -> UniqIds sch S ->
+    lookup_path sch S path = Some nS -> is_term sch (d_sid nS) = false ->
+    In x (d_ch nS) -> kind_of sch (d_sid x) = KLeafList ->
+    exists nR x', lookup_path sch (merge sch o T S) path = Some nR /\ In x' (d_ch nR) /\
+                  d_sid x' = d_sid x /\ d_val x' = d_val x.
+  Proof.
+    intros HT HS HUT HUS H2 H3 Hx Hk.
+    destruct (lookup_path sch T path) as [nT|] eqn:E1.
+    - apply (merge_contains_leaflist_child sch o Hsch T S path nT nS x); assumption.
+    - exists nS, x. split; [apply merge_copies_new; assumption|]. repeat split. exact Hx.
+  Qed.
+End Copied.
+
+(* ------------------------------------------------------------------------------------------- *)
+(* K. idempotence with instances of config false leaf-lists (positional matching)                *)
+(* ------------------------------------------------------------------------------------------- *)
+Lemma match_eq_equiv sch a b : match_eq sch a b = true -> forall t, match_eq sch a t = match_eq sch b t.
+Proof.
+  intros H t. destruct (match_eq sch a t) eqn:E1, (match_eq sch b t) eqn:E2; try reflexivity.
+  - rewrite (match_eq_trans sch b a t (match_eq_sym sch a b H) E1) in E2. discriminate.
+  - rewrite (match_eq_trans sch a b t H E2) in E1. discriminate.
+Qed.
+
+Lemma match_eq_comm sch a b : match_eq sch a b = match_eq sch b a.
+Proof.
+  destruct (match_eq sch a b) eqn:E1, (match_eq sch b a) eqn:E2; try reflexivity.
+  - rewrite (match_eq_sym sch a b E1) in E2. discriminate.
+  - rewrite (match_eq_sym sch b a E2) in E1. discriminate.
+Qed.
+
+Lemma count_match_equiv sch a b f : match_eq sch a b = true -> count_match sch a f = count_match sch b f.
+Proof. intro H. unfold count_match. f_equal. apply filter_ext. apply (match_eq_equiv sch a b H). Qed.
+
+(* the k-th sibling that matches x *)
+Definition kth (sch : schema) (x : dnode) (f : forest) (k : nat) : option dnode :=
+  nth_error (filter (match_eq sch x) f) k.
+
+Lemma match_idx_kth sch x f : forall k j i,
+  match_idx sch x f k j = Some i -> (j <= i)%nat /\ nth_error f (i - j) = kth sch x f k /\ kth sch x f k <> None.
+Proof.
+  unfold kth. induction f as [|a r IH]; intros k j i H; cbn [match_idx] in H; [discriminate|]. cbn [filter].
+  destruct (match_eq sch x a) eqn:E.
+  - destruct k as [|k].
+    + inversion H; subst i. rewrite Nat.sub_diag. cbn. repeat split; [lia|discriminate].
+    + destruct (IH _ _ _ H) as [H1 [H2 H3]]. cbn [nth_error]. repeat split; [lia| |exact H3].
+      replace (i - j)%nat with (S (i - S j)) by lia. exact H2.
+  - destruct (IH _ _ _ H) as [H1 [H2 H3]]. repeat split; [lia| |exact H3].
+    replace (i - j)%nat with (S (i - S j)) by lia. exact H2.
+Qed.
+
+Lemma kth_lt sch x f k t : kth sch x f k = Some t -> (k < count_match sch x f)%nat.
+Proof. unfold kth, count_match. intro H. apply nth_error_Some. congruence. Qed.
+
+Lemma kth_match sch x f k t : kth sch x f k = Some t -> In t f /\ match_eq sch x t = true.
+Proof. unfold kth. intro H. apply nth_error_In in H. apply filter_In in H. exact H. Qed.
+
+(* filter and the two ways a step changes the siblings *)
+Lemma filter_insert_other sch (P : dnode -> bool) f n : P n = false -> filter P (insert_node sch f n) = filter P f.
+Proof.
+  intro Hn. induction f as [|b r IH]; cbn [insert_node filter]; [rewrite Hn; reflexivity|].
+  destruct (goes_before sch n b); cbn [filter]; [rewrite Hn; reflexivity|]. rewrite IH. reflexivity.
+Qed.
+
+Lemma filter_replace_other {A} (P : A -> bool) i l t x :
+  nth_error l i = Some t -> P t = false -> P x = false -> filter P (replace_nth i l x) = filter P l.
+Proof.
+  revert i; induction l as [|a l IH]; intros [|i] Hn Ht Hx; cbn in *; try discriminate.
+  - inversion Hn; subst a. rewrite Ht, Hx. reflexivity.
+  - rewrite (IH i Hn Ht Hx). reflexivity.
+Qed.
+
+Lemma filter_replace_hit {A} (P : A -> bool) i l t x :
+  nth_error l i = Some t -> P t = true -> P x = true ->
+  filter P (replace_nth i l x) = replace_nth (length (filter P (firstn i l))) (filter P l) x.
+Proof.
+  revert i; induction l as [|a l IH]; intros [|i] Hn Ht Hx; cbn [nth_error replace_nth firstn filter length] in *; try discriminate.
+  - inversion Hn; subst a. rewrite Ht, Hx. reflexivity.
+  - rewrite (IH i Hn Ht Hx). destruct (P a); cbn [length replace_nth]; reflexivity.
+Qed.
+
+Lemma nth_error_filter_firstn {A} (P : A -> bool) i l t :
+  nth_error l i = Some t -> P t = true -> nth_error (filter P l) (length (filter P (firstn i l))) = Some t.
+Proof.
+  revert i; induction l as [|a l IH]; intros [|i] Hn Ht; cbn [nth_error firstn filter length] in *; try discriminate.
+  - inversion Hn; subst a. rewrite Ht. reflexivity.
+  - destruct (P a); cbn [length nth_error]; apply (IH i Hn Ht).
+Qed.
+
+(* a node inserted by lyd_insert_node lands behind every instance of its class *)
+Lemma filter_insert_end sch p (P : dnode -> bool) f n :
+  CanonAt sch p f -> P n = true -> (forall t, P t = true -> d_sid t = d_sid n) ->
+  (sorted_sid sch (d_sid n) = false \/ filter P f = []) ->
+  filter P (insert_node sch f n) = filter P f ++ [n].
+Proof.
+  intros HC Hn Hs Hor. pose proof (canon_strongly_sorted sch p f HC) as HS. clear HC.
+  induction f as [|b r IH]; cbn [insert_node filter app]; [rewrite Hn; reflexivity|].
+  destruct (goes_before sch n b) eqn:Eg.
+  - cbn [filter]. rewrite Hn.
+    assert (Hnil : filter P (b :: r) = []).
+    { destruct Hor as [Hso|Hnil]; [|exact Hnil].
+      unfold goes_before in Eg. rewrite Hso, andb_false_r, orb_false_r in Eg. apply N.ltb_lt in Eg.
+      inversion HS as [|? ? HS' Hall]; subst.
+      assert (Hge : forall c, In c (b :: r) -> d_sid n < d_sid c).
+      { intros c [<-|Hc]; [exact Eg|]. rewrite Forall_forall in Hall. specialize (Hall c Hc).
+        destruct Hall as [H|[H _]]; lia. }
+      destruct (filter P (b :: r)) as [|c l] eqn:Ef; [reflexivity|].
+      assert (Hc : In c (filter P (b :: r))) by (rewrite Ef; left; reflexivity).
+      apply filter_In in Hc. destruct Hc as [Hc1 Hc2]. specialize (Hge c Hc1). rewrite (Hs c Hc2) in Hge. lia. }
+    cbn [filter] in Hnil. rewrite Hnil. reflexivity.
+  - cbn [filter]. inversion HS as [|? ? HS' Hall]; subst.
+    rewrite IH; [destruct (P b); reflexivity| |exact HS'].
+    destruct Hor as [H|H]; [left; exact H|right]. cbn [filter] in H. destruct (P b); [discriminate|exact H].
+Qed.
+
+(* t has absorbed the source subtree x, positionally: updating t with x changes nothing, and for every child y of x that
+   is not a key, the k-th child of t matching y - k = number of earlier children of x matching y, which is the instance
+   lyd_dup_inst_next hands out - has absorbed y *)
+Fixpoint AbsN (sch : schema) (o : mopts) (x t : dnode) {struct x} : Prop :=
+  match x with
+  | DN s v d m ch =>
+      merge_value sch o x t = (t, []) /\
+      (fix go (pre suf : list dnode) {struct suf} : Prop :=
+         match suf with
+         | [] => True
+         | y :: suf' =>
+             (is_key sch (d_sid y) = true \/
+              exists t', kth sch y (d_ch t) (count_match sch y pre) = Some t' /\ AbsN sch o y t') /\
+             go (pre ++ [y]) suf'
+         end) [] ch
+  end.
+
+Fixpoint AbsL (sch : schema) (o : mopts) (R : forest) (pre suf : list dnode) {struct suf} : Prop :=
+  match suf with
+  | [] => True
+  | y :: suf' =>
+      (is_key sch (d_sid y) = true \/
+       exists t', kth sch y R (count_match sch y pre) = Some t' /\ AbsN sch o y t') /\
+      AbsL sch o R (pre ++ [y]) suf'
+  end.
+
+Lemma AbsN_unfold sch o x t :
+  AbsN sch o x t <-> merge_value sch o x t = (t, []) /\ AbsL sch o (d_ch t) [] (d_ch x).
+Proof.
+  destruct x as [s v d m ch]. cbn [AbsN d_ch].
+  assert (HF : forall suf pre,
+             (fix go (pre suf : list dnode) {struct suf} : Prop :=
+                match suf with
+                | [] => True
+                | y :: suf' =>
+                    (is_key sch (d_sid y) = true \/
+                     exists t', kth sch y (d_ch t) (count_match sch y pre) = Some t' /\ AbsN sch o y t') /\
+                    go (pre ++ [y]) suf'
+                end) pre suf <-> AbsL sch o (d_ch t) pre suf).
+  { induction suf as [|y suf IH]; intro pre; cbn [AbsL]; [reflexivity|]. rewrite IH. reflexivity. }
+  rewrite HF. reflexivity.
+Qed.
+
+(* the cache while a source list is merged a second time into siblings R that do not change: an entry per class that
+   has occurred, holding the number of matches in R and the number of occurrences so far *)
+Definition CI2 (sch : schema) (R : forest) (c : cache) (pre : list dnode) : Prop :=
+  forall z, is_key sch (d_sid z) = false ->
+            cache_find sch c z =
+            if Nat.eqb (count_match sch z pre) 0 then None else Some (count_match sch z R, count_match sch z pre).
+
+Lemma cache_find_bump sch c y z :
+  cache_find sch (cache_bump sch c y) z =
+  if match_eq sch y z
+  then match cache_find sch c z with Some (cnt, u) => Some (cnt, S u) | None => None end
+  else cache_find sch c z.
+Proof.
+  induction c as [|[[r cnt] u] c IH]; cbn [cache_bump cache_find]; [destruct (match_eq sch y z); reflexivity|].
+  destruct (match_eq sch r y) eqn:Ery.
+  - cbn [cache_find]. destruct (match_eq sch y z) eqn:Eyz.
+    + rewrite (match_eq_trans sch r y z Ery Eyz). reflexivity.
+    + destruct (match_eq sch r z) eqn:Erz; [|reflexivity].
+      rewrite (match_eq_trans sch y r z (match_eq_sym _ _ _ Ery) Erz) in Eyz. discriminate.
+  - cbn [cache_find]. destruct (match_eq sch r z) eqn:Erz.
+    + destruct (match_eq sch y z) eqn:Eyz; [|reflexivity].
+      rewrite (match_eq_trans sch r z y Erz (match_eq_sym _ _ _ Eyz)) in Ery. discriminate.
+    + exact IH.
+Qed.
+
+Lemma count_match_snoc sch z pre y :
+  count_match sch z (pre ++ [y]) = (count_match sch z pre + if match_eq sch z y then 1 else 0)%nat.
+Proof. rewrite count_match_app. unfold count_match at 2. cbn [filter]. destruct (match_eq sch z y); reflexivity. Qed.
+
+Lemma is_key_match sch a b : match_eq sch a b = true -> is_key sch (d_sid b) = is_key sch (d_sid a).
+Proof. intro H. rewrite (match_eq_sid _ _ _ H). reflexivity. Qed.
+
+(* one step of the second merge *)
+Lemma fix2_step sch o y R c pre t' :
+  upd_node sch o y t' = (t', []) -> is_key sch (d_sid y) = false ->
+  kth sch y R (count_match sch y pre) = Some t' -> CI2 sch R c pre ->
+  exists c' oth, merge_sib sch o y R c = (R, c', [], oth) /\ CI2 sch R c' (pre ++ [y]).
+Proof.
+  intros Hupd Hky Hkth HCI. set (k := count_match sch y pre) in *.
+  pose proof (kth_lt sch y R k t' Hkth) as Hlt.
+  rewrite merge_sib_unfold. unfold choose.
+  destruct (match_idx sch y R 0 0) as [i0|] eqn:E0; [|exfalso; apply (match_idx_lt sch y R O O); [lia|exact E0]].
+  unfold dup_inst_next. rewrite (HCI y Hky). fold k.
+  destruct (Nat.eqb k 0) eqn:Ek0.
+  - apply Nat.eqb_eq in Ek0. rewrite Ek0 in Hkth.
+    destruct (match_idx_kth _ _ _ _ _ _ E0) as [_ [Hn _]]. rewrite Nat.sub_0_r, Hkth in Hn.
+    rewrite E0, (nth_nth_error i0 R y t' Hn), Hupd, (replace_nth_same i0 R t' Hn).
+    eexists. eexists. split; [reflexivity|].
+    intros z Hkz. cbn [cache_find]. rewrite count_match_snoc, (match_eq_comm sch z y).
+    destruct (match_eq sch y z) eqn:Eyz.
+    + rewrite <- (count_match_equiv sch y z pre Eyz), <- (count_match_equiv sch y z R Eyz). fold k. rewrite Ek0. reflexivity.
+    + rewrite Nat.add_0_r. apply (HCI z Hkz).
+  - apply Nat.eqb_neq in Ek0.
+    assert (Hne : Nat.eqb k (count_match sch y R) = false) by (apply Nat.eqb_neq; lia).
+    rewrite Hne.
+    destruct (match_idx sch y R k 0) as [i|] eqn:Ei; [|exfalso; apply (match_idx_lt sch y R k O Hlt); exact Ei].
+    destruct (match_idx_kth _ _ _ _ _ _ Ei) as [_ [Hn _]]. rewrite Nat.sub_0_r, Hkth in Hn.
+    rewrite (nth_nth_error i R y t' Hn), Hupd, (replace_nth_same i R t' Hn).
+    eexists. eexists. split; [reflexivity|].
+    intros z Hkz. rewrite cache_find_bump, count_match_snoc, (match_eq_comm sch z y).
+    destruct (match_eq sch y z) eqn:Eyz.
+    + rewrite (HCI z Hkz).
+      rewrite <- (count_match_equiv sch y z pre Eyz), <- (count_match_equiv sch y z R Eyz). fold k.
+      destruct (Nat.eqb k 0) eqn:E; [apply Nat.eqb_eq in E; lia|].
+      destruct (Nat.eqb (k + 1) 0) eqn:E'; [apply Nat.eqb_eq in E'; lia|]. f_equal. f_equal. lia.
+    + rewrite Nat.add_0_r. apply (HCI z Hkz).
+Qed.
+
+Definition fix2_stmt sch o (x : dnode) : Prop := forall t, AbsN sch o x t -> upd_node sch o x t = (t, []).
+
+Lemma CI2_key sch R c pre y : is_key sch (d_sid y) = true -> CI2 sch R c pre -> CI2 sch R c (pre ++ [y]).
+Proof.
+  intros Hk H z Hz. rewrite count_match_snoc.
+  assert (E : match_eq sch z y = false).
+  { destruct (match_eq sch z y) eqn:E; [|reflexivity]. rewrite (is_key_match sch z y E) in Hk. congruence. }
+  rewrite E, Nat.add_0_r. apply (H z Hz).
+Qed.
+
+Lemma fix2_children sch o np R : forall suf pre c flag up,
+  Forall (fix2_stmt sch o) suf -> AbsL sch o R pre suf -> CI2 sch R c pre ->
+  merge_children sch (merge_sib sch o) np suf R c flag up = (R, flag, up).
+Proof.
+  induction suf as [|y suf IH]; intros pre c flag up HI HA HC; cbn [merge_children]; [reflexivity|].
+  inversion HI as [|? ? Hy HI']; subst. cbn [AbsL] in HA. destruct HA as [Hy' HA].
+  destruct (is_key sch (d_sid y)) eqn:Ek.
+  - apply (IH (pre ++ [y])); [exact HI'|exact HA|apply CI2_key; assumption].
+  - destruct Hy' as [Hy'|[t' [Hk Ha]]]; [discriminate|].
+    destruct (fix2_step sch o y R c pre t' (Hy t' Ha) Ek Hk HC) as [c' [oth [E HC']]].
+    rewrite E. cbn [apply_sigs]. rewrite app_nil_r. apply (IH (pre ++ [y])); assumption.
+Qed.
+
+Lemma CI2_nil sch R : CI2 sch R [] [].
+Proof. intros z _. reflexivity. Qed.
+
+Theorem fix2_node sch o x : fix2_stmt sch o x.
+Proof.
+  induction x as [s v d m ch IH] using dnode_ind'. intros t HA. apply AbsN_unfold in HA. destruct HA as [Hmv HL].
+  unfold upd_node. rewrite Hmv. cbn [d_ch] in *.
+  rewrite (fix2_children sch o _ (d_ch t) ch [] [] (d_dflt t) [] IH HL (CI2_nil sch (d_ch t))).
+  rewrite set_same. reflexivity.
+Qed.
+
+Lemma fix2_list sch o R : forall suf pre c,
+  Forall (fun y => is_key sch (d_sid y) = false) suf -> AbsL sch o R pre suf -> CI2 sch R c pre ->
+  merge_list sch o suf R c = R.
+Proof.
+  induction suf as [|y suf IH]; intros pre c HK HA HC; cbn [merge_list]; [reflexivity|].
+  inversion HK as [|? ? Ky HK']; subst. cbn [AbsL] in HA. destruct HA as [[Hy|[t' [Hk Ha]]] HA]; [congruence|].
+  destruct (fix2_step sch o y R c pre t' (fix2_node sch o y t' Ha) Ky Hk HC) as [c' [oth [E HC']]].
+  rewrite E. apply (IH (pre ++ [y])); assumption.
+Qed.
+
+(* --- the first merge leaves every source subtree absorbed, positionally --- *)
+(* no instance of a key-less list in the subtree (instances of config false leaf-lists are allowed) *)
+Definition nokl (sch : schema) (s : sid) : bool :=
+  negb (dup_inst sch s) || match kind_of sch s with KLeafList => true | _ => false end.
+
+Fixpoint NoKl (sch : schema) (n : dnode) {struct n} : Prop :=
+  match n with
+  | DN s _ _ _ ch =>
+      nokl sch s = true /\
+      (fix all (l : list dnode) : Prop := match l with [] => True | x :: l' => NoKl sch x /\ all l' end) ch
+  end.
+
+Lemma NoKl_unfold sch n : NoKl sch n <-> nokl sch (d_sid n) = true /\ Forall (NoKl sch) (d_ch n).
+Proof.
+  destruct n as [s v d m ch]. cbn [NoKl d_sid d_ch].
+  assert (HF : forall l, (fix all (l : list dnode) : Prop :=
+                            match l with [] => True | x :: l' => NoKl sch x /\ all l' end) l <-> Forall (NoKl sch) l).
+  { induction l as [|x l IH]; [split; [constructor|trivial]|]. split.
+    - intros [H1 H2]. constructor; [assumption|apply IH; assumption].
+    - intro H. inversion H; subst. split; [assumption|apply IH; assumption]. }
+  rewrite HF. reflexivity.
+Qed.
+
+Fixpoint no_klb (sch : schema) (n : dnode) {struct n} : bool :=
+  match n with DN s _ _ _ ch => nokl sch s && forallb (no_klb sch) ch end.
+
+Lemma no_klb_spec sch n : no_klb sch n = true -> NoKl sch n.
+Proof.
+  induction n as [s v d m ch IH] using dnode_ind'. cbn [no_klb]. intro H. apply andb_true_iff in H. destruct H as [H1 H2].
+  apply NoKl_unfold. cbn [d_sid d_ch]. split; [exact H1|].
+  rewrite forallb_forall in H2. rewrite Forall_forall in *. intros x Hx. apply (IH x Hx), H2, Hx.
+Qed.
+
+Lemma match_idx_rank sch x f : forall k j i,
+  match_idx sch x f k j = Some i -> length (filter (match_eq sch x) (firstn (i - j) f)) = k.
+Proof.
+  induction f as [|a r IH]; intros k j i H; cbn [match_idx] in H; [discriminate|].
+  destruct (match_eq sch x a) eqn:E.
+  - destruct k as [|k].
+    + inversion H; subst i. rewrite Nat.sub_diag. reflexivity.
+    + destruct (match_idx_some _ _ _ _ _ _ H) as [_ [Hle _]].
+      replace (i - j)%nat with (S (i - S j)) by lia. cbn [firstn filter]. rewrite E. cbn [length]. f_equal. apply (IH _ _ _ H).
+  - destruct (match_idx_some _ _ _ _ _ _ H) as [_ [Hle _]].
+    replace (i - j)%nat with (S (i - S j)) by lia. cbn [firstn filter]. rewrite E. apply (IH _ _ _ H).
+Qed.
+
+Lemma merge_children_fold sch o np p l : forall tch cc flag up,
+  Forall (CanonN sch p) l -> cache_inv sch cc tch ->
+  MFoldK sch (MStep sch o) l tch (fst (fst (merge_children sch (merge_sib sch o) np l tch cc flag up))).
+Proof.
+  intros tch cc flag up HC Hi. apply (merge_children_sound sch o np l) with (p := p); [|exact HC|exact Hi].
+  apply Forall_forall. intros x _ p' trg c Hx Hc. apply (merge_sib_sound sch o x p' trg c Hx Hc).
+Qed.
+
+(* updating t with a source node that is not an instance of a key-less list keeps t in every class it was in *)
+Lemma upd_class_stable sch o p x t :
+  CanonN sch p x -> nokl sch (d_sid x) = true -> match_eq sch x t = true ->
+  forall z, match_eq sch z (fst (upd_node sch o x t)) = match_eq sch z t.
+Proof.
+  intros HC Hk Hm z.
+  pose proof (upd_node_facts sch o x t) as HF. cbn zeta in HF. destruct HF as [Hs [_ [Hv [_ Hc]]]].
+  set (t2 := fst (upd_node sch o x t)) in *.
+  assert (Hp : parents_ok sch x) by (apply (CanonN_parents_ok sch p), HC).
+  assert (HFold : MFoldK sch (MStep sch o) (d_ch x) (d_ch t) (d_ch t2)).
+  { rewrite Hc. apply (merge_children_fold sch o _ (Some (d_sid x))); [|apply cache_inv_nil].
+    destruct x as [s v d m ch]. apply CanonN_unfold in HC. apply HC. }
+  pose proof (match_eq_sid _ _ _ Hm) as Hst.
+  destruct (dup_inst sch (d_sid z)) eqn:Edz.
+  - rewrite !(match_eq_dup sch z _ Edz), Hs.
+    destruct (d_sid t =? d_sid z) eqn:Es; [|reflexivity]. cbn [andb]. apply N.eqb_eq in Es.
+    assert (Hkl : kind_of sch (d_sid x) = KLeafList).
+    { unfold nokl in Hk. rewrite <- Hst, Es, Edz in Hk. cbn [negb orb] in Hk. rewrite <- Hst, Es.
+      destruct (kind_of sch (d_sid z)); try discriminate. reflexivity. }
+    assert (Hxn : d_ch x = []) by (apply (CanonN_term_nil sch p x HC); unfold is_term; rewrite Hkl; reflexivity).
+    rewrite Hxn in HFold. apply MFoldK_nil_src in HFold.
+    rewrite !deq_unfold, Hs, HFold, Hv. unfold new_val. rewrite merge_value_leaflist_val; [reflexivity|rewrite Hst; exact Hkl].
+  - destruct (inst_id_some sch z Edz) as [j Hj]. rewrite !(match_eq_has_id sch z j Hj). unfold has_id.
+    rewrite (upd_inst_id sch o x t t2 Hp Hm Hs Hv HFold). reflexivity.
+Qed.
+
+Definition E1 sch o (trg : forest) (pre : list dnode) : Prop :=
+  forall pre1 y pre2, pre = pre1 ++ y :: pre2 -> is_key sch (d_sid y) = false ->
+                      exists t', kth sch y trg (count_match sch y pre1) = Some t' /\ AbsN sch o y t'.
+
+Definition E2 sch (trg : forest) (c : cache) (pre : list dnode) : Prop :=
+  forall z, is_key sch (d_sid z) = false ->
+            match cache_find sch c z with
+            | None => count_match sch z pre = O
+            | Some (cnt, used) =>
+                count_match sch z pre <> O /\
+                ((used = count_match sch z pre /\ (used < cnt)%nat /\ cnt = count_match sch z trg) \/
+                 (used = cnt /\ count_match sch z trg = count_match sch z pre))
+            end.
+
+Lemma E1_AbsL sch o R : forall suf pre,
+  (forall pre1 y pre2, pre ++ suf = pre1 ++ y :: pre2 -> (length pre <= length pre1)%nat -> is_key sch (d_sid y) = false ->
+                       exists t', kth sch y R (count_match sch y pre1) = Some t' /\ AbsN sch o y t') ->
+  AbsL sch o R pre suf.
+Proof.
+  induction suf as [|y suf IH]; intros pre H; cbn [AbsL]; [exact I|]. split.
+  - destruct (is_key sch (d_sid y)) eqn:Ek; [left; reflexivity|right].
+    apply (H pre y suf eq_refl); [lia|exact Ek].
+  - apply IH. intros pre1 y' pre2 E Hl Hk. apply (H pre1 y' pre2); [rewrite <- app_assoc in E; exact E| |exact Hk].
+    rewrite app_length in Hl. cbn in Hl. lia.
+Qed.
+
+Lemma snoc_decomp {A} (pre : list A) x pre1 y pre2 :
+  pre ++ [x] = pre1 ++ y :: pre2 ->
+  (pre1 = pre /\ y = x /\ pre2 = []) \/ (exists q, pre2 = q ++ [x] /\ pre = pre1 ++ y :: q).
+Proof.
+  revert pre1. induction pre as [|a pre IH]; intros [|b pre1] E; cbn [app] in E.
+  - inversion E; subst. left. repeat split.
+  - inversion E as [[E1' E2']]. destruct pre1; discriminate.
+  - inversion E; subst. right. exists pre. split; reflexivity.
+  - inversion E as [[Ea Eb]]. subst b. destruct (IH pre1 Eb) as [[-> [-> ->]]|[q [-> ->]]].
+    + left. repeat split.
+    + right. exists q. split; reflexivity.
+Qed.
+
+Lemma E_key sch o trg c pre y :
+  is_key sch (d_sid y) = true -> E1 sch o trg pre -> E2 sch trg c pre -> E1 sch o trg (pre ++ [y]) /\ E2 sch trg c (pre ++ [y]).
+Proof.
+  intros Hk H1 H2. split.
+  - intros pre1 y' pre2 E Hy'. destruct (snoc_decomp pre y pre1 y' pre2 E) as [[-> [-> ->]]|[q [-> ->]]]; [congruence|].
+    apply (H1 pre1 y' q eq_refl Hy').
+  - intros z Hz. specialize (H2 z Hz). rewrite count_match_snoc.
+    assert (E : match_eq sch z y = false).
+    { destruct (match_eq sch z y) eqn:E; [|reflexivity]. rewrite (is_key_match sch z y E) in Hk. congruence. }
+    rewrite E, Nat.add_0_r. exact H2.
+Qed.
+
+Lemma count_match_insert_eq sch z f x :
+  count_match sch z (insert_node sch f x) = (count_match sch z f + if match_eq sch z x then 1 else 0)%nat.
+Proof. unfold count_match. rewrite filter_insert_node_len. cbn [filter]. destruct (match_eq sch z x); cbn [length]; lia. Qed.
+
+Lemma count_match_replace_eq sch z i f t t2 :
+  nth_error f i = Some t -> match_eq sch z t2 = match_eq sch z t ->
+  count_match sch z (replace_nth i f t2) = count_match sch z f.
+Proof. intros Hn H. unfold count_match. apply (filter_replace_nth_len _ i f t t2 Hn H). Qed.
+
+Lemma kth_self_in sch y pre1 pre2 : kth sch y (pre1 ++ y :: pre2) (count_match sch y pre1) = Some y.
+Proof.
+  unfold kth, count_match. rewrite filter_app. cbn [filter]. rewrite match_eq_refl.
+  rewrite nth_error_app2; [|lia]. rewrite Nat.sub_diag. reflexivity.
+Qed.
+
+Lemma rank_lt sch y pre1 pre2 : (count_match sch y pre1 < count_match sch y (pre1 ++ y :: pre2))%nat.
+Proof. apply (kth_lt sch y _ _ y). apply kth_self_in. Qed.
+
+Lemma E1_ins sch o p trg pre x :
+  CanonAt sch p trg -> E1 sch o trg pre -> AbsN sch o x x ->
+  (sorted_sid sch (d_sid x) = false \/ filter (match_eq sch x) trg = []) ->
+  count_match sch x pre = count_match sch x trg ->
+  E1 sch o (insert_node sch trg x) (pre ++ [x]).
+Proof.
+  intros HC H1 Hxx Hor Hcnt pre1 y pre2 E Hy.
+  destruct (snoc_decomp pre x pre1 y pre2 E) as [[-> [-> ->]]|[q [-> ->]]].
+  - exists x. split; [|exact Hxx]. unfold kth.
+    rewrite (filter_insert_end sch p (match_eq sch x) trg x HC (match_eq_refl sch x)); [| |exact Hor].
+    + rewrite Hcnt. unfold count_match. rewrite nth_error_app2; [|lia]. rewrite Nat.sub_diag. reflexivity.
+    + intros t Ht. apply (match_eq_sid _ _ _ Ht).
+  - destruct (H1 pre1 y q eq_refl Hy) as [t' [Hk Ha]]. exists t'. split; [|exact Ha].
+    unfold kth in *. destruct (match_eq sch y x) eqn:Eyx.
+    + rewrite (filter_insert_end sch p (match_eq sch y) trg x HC Eyx).
+      * rewrite nth_error_app1; [exact Hk|]. apply nth_error_Some. congruence.
+      * intros t Ht. rewrite (match_eq_sid _ _ _ Ht), (match_eq_sid _ _ _ Eyx). reflexivity.
+      * destruct Hor as [Hs|Hn]; [left; exact Hs|right].
+        rewrite (filter_ext _ _ (match_eq_equiv sch y x Eyx)). exact Hn.
+    + rewrite (filter_insert_other sch _ trg x Eyx). exact Hk.
+Qed.
+
+Lemma E1_upd sch o trg pre x i t t2 :
+  E1 sch o trg pre -> nth_error trg i = Some t -> match_eq sch x t = true ->
+  length (filter (match_eq sch x) (firstn i trg)) = count_match sch x pre ->
+  (forall z, match_eq sch z t2 = match_eq sch z t) -> AbsN sch o x t2 ->
+  E1 sch o (replace_nth i trg t2) (pre ++ [x]).
+Proof.
+  intros H1 Hn Hm Hrank Hst Hax pre1 y pre2 E Hy.
+  assert (Hself : nth_error (filter (match_eq sch x) trg) (count_match sch x pre) = Some t).
+  { rewrite <- Hrank. apply (nth_error_filter_firstn _ i trg t Hn Hm). }
+  destruct (snoc_decomp pre x pre1 y pre2 E) as [[-> [-> ->]]|[q [-> ->]]].
+  - exists t2. split; [|exact Hax]. unfold kth.
+    rewrite (filter_replace_hit _ i trg t t2 Hn Hm); [|rewrite Hst; exact Hm].
+    rewrite Hrank, (nth_error_replace _ _ _ t2 t Hself), Nat.eqb_refl. reflexivity.
+  - destruct (H1 pre1 y q eq_refl Hy) as [t' [Hk Ha]]. exists t'. split; [|exact Ha].
+    unfold kth in *. destruct (match_eq sch y t) eqn:Eyt.
+    + assert (Eyx : match_eq sch y x = true) by (apply (match_eq_trans sch y t x Eyt), match_eq_sym, Hm).
+      rewrite (filter_replace_hit _ i trg t t2 Hn Eyt); [|rewrite Hst; exact Eyt].
+      rewrite (filter_ext _ _ (match_eq_equiv sch y x Eyx) trg) in Hk.
+      rewrite (filter_ext _ _ (match_eq_equiv sch y x Eyx) trg), (filter_ext _ _ (match_eq_equiv sch y x Eyx) (firstn i trg)), Hrank.
+      rewrite (nth_error_replace _ _ _ t2 t Hself).
+      pose proof (rank_lt sch y pre1 q) as Hlt. rewrite (count_match_equiv sch y x (pre1 ++ y :: q) Eyx) in Hlt.
+      destruct (Nat.eqb (count_match sch x (pre1 ++ y :: q)) (count_match sch y pre1)) eqn:En; [apply Nat.eqb_eq in En; lia|].
+      exact Hk.
+    + rewrite (filter_replace_other _ i trg t t2 Hn Eyt); [exact Hk|rewrite Hst; exact Eyt].
+Qed.
+
+Lemma cache_find_equiv sch c x z : match_eq sch x z = true -> cache_find sch c z = cache_find sch c x.
+Proof.
+  intro H. induction c as [|[[r cnt] u] c IH]; cbn [cache_find]; [reflexivity|].
+  rewrite (match_eq_comm sch r z), (match_eq_comm sch r x), <- (match_eq_equiv sch x z H r), IH. reflexivity.
+Qed.
+
+Lemma dup_not_sorted sch s : dup_inst sch s = true -> sorted_sid sch s = false.
+Proof.
+  unfold sorted_sid, userordered, dup_inst, multi, kind_of. destruct (si_kind (sget sch s)); try discriminate.
+  - intro H. rewrite H, orb_true_r. reflexivity.
+  - destruct (si_keys (sget sch s)); [|discriminate]. intros _. rewrite orb_true_r. reflexivity.
+Qed.
+
+Lemma count_pos_split sch x pre : count_match sch x pre <> O -> exists pre1 y pre2, pre = pre1 ++ y :: pre2 /\ match_eq sch x y = true.
+Proof.
+  unfold count_match. intro H. destruct (filter (match_eq sch x) pre) as [|y l] eqn:E; [contradiction|].
+  assert (Hy : In y (filter (match_eq sch x) pre)) by (rewrite E; left; reflexivity).
+  apply filter_In in Hy. destruct Hy as [Hy1 Hy2]. destruct (in_split y pre Hy1) as [pre1 [pre2 ->]].
+  exists pre1, y, pre2. split; [reflexivity|exact Hy2].
+Qed.
+
+Lemma filter_none {A} (P : A -> bool) l : (forall x, In x l -> P x = false) -> filter P l = [].
+Proof.
+  induction l as [|a l IH]; intro H; cbn [filter]; [reflexivity|]. rewrite (H a (or_introl eq_refl)).
+  apply IH. intros x Hx. apply H. right. exact Hx.
+Qed.
+
+Lemma AbsN_self sch o x : AbsN sch o x x.
+Proof.
+  induction x as [s v d m ch IH] using dnode_ind'. apply AbsN_unfold. split; [apply merge_value_self|]. cbn [d_ch].
+  apply E1_AbsL. cbn [app]. intros pre1 y pre2 E _ Hy. exists y. subst ch. split; [apply kth_self_in|].
+  rewrite Forall_forall in IH. apply IH. apply in_or_app. right. left. reflexivity.
+Qed.
+
+Definition est_stmt sch o (x : dnode) : Prop :=
+  forall p t, CanonN sch p x -> UniqN sch x -> NoKl sch x -> CanonN sch p t -> match_eq sch x t = true ->
+              AbsN sch o x (fst (upd_node sch o x t)).
+
+Lemma est_step sch o p x trg c pre :
+  est_stmt sch o x -> CanonAt sch p trg -> CanonN sch p x -> UniqN sch x -> NoKl sch x -> is_key sch (d_sid x) = false ->
+  (dup_inst sch (d_sid x) = false -> count_match sch x pre = O) ->
+  E1 sch o trg pre -> E2 sch trg c pre ->
+  E1 sch o (r_trg (merge_sib sch o x trg c)) (pre ++ [x]) /\
+  E2 sch (r_trg (merge_sib sch o x trg c)) (r_cache (merge_sib sch o x trg c)) (pre ++ [x]).
+Proof.
+  intros Hest HC Cx Nx Kx Hkx Hnd H1 H2.
+  assert (Hnk : nokl sch (d_sid x) = true) by (apply NoKl_unfold in Kx; apply Kx).
+  pose proof (H2 x Hkx) as H2x.
+  (* what an update of the i-th sibling gives *)
+  assert (Hupd : forall i t c', nth_error trg i = Some t -> match_eq sch x t = true ->
+                   length (filter (match_eq sch x) (firstn i trg)) = count_match sch x pre ->
+                   (forall z, is_key sch (d_sid z) = false ->
+                      match cache_find sch c' z with
+                      | None => count_match sch z (pre ++ [x]) = O
+                      | Some (cnt, used) =>
+                          count_match sch z (pre ++ [x]) <> O /\
+                          ((used = count_match sch z (pre ++ [x]) /\ (used < cnt)%nat /\ cnt = count_match sch z trg) \/
+                           (used = cnt /\ count_match sch z trg = count_match sch z (pre ++ [x])))
+                      end) ->
+                   let '(t2, sg) := upd_node sch o x t in
+                   E1 sch o (replace_nth i trg t2) (pre ++ [x]) /\ E2 sch (replace_nth i trg t2) c' (pre ++ [x])).
+  { intros i t c' Hn Hm Hrank HE2.
+    assert (Ct : CanonN sch p t) by (apply (CanonAt_In sch p trg t HC), (nth_error_In _ _ Hn)).
+    pose proof (upd_class_stable sch o p x t Cx Hnk Hm) as Hst.
+    pose proof (Hest p t Cx Nx Kx Ct Hm) as Hax.
+    destruct (upd_node sch o x t) as [t2 sg]. cbn [fst] in *. split.
+    - apply (E1_upd sch o trg pre x i t t2 H1 Hn Hm Hrank Hst Hax).
+    - intros z Hz. specialize (HE2 z Hz). rewrite (count_match_replace_eq sch z i trg t t2 Hn (Hst z)). exact HE2. }
+  rewrite merge_sib_unfold. unfold choose.
+  destruct (match_idx sch x trg 0 0) as [i0|] eqn:E0.
+  - unfold dup_inst_next.
+    destruct (cache_find sch c x) as [[cnt used]|] eqn:Ec.
+    + destruct H2x as [Hne [[Hu [Hlt Hcnt]]|[Hu Hcnt]]].
+      * (* the next unused equal instance is updated *)
+        assert (Hneq : Nat.eqb used cnt = false) by (apply Nat.eqb_neq; lia). rewrite Hneq.
+        destruct (match_idx sch x trg used 0) as [i|] eqn:Ei;
+          [|exfalso; apply (match_idx_lt sch x trg used O); [lia|exact Ei]].
+        destruct (match_idx_some _ _ _ _ _ _ Ei) as [t [_ [Hn Hm]]]. rewrite Nat.sub_0_r in Hn.
+        pose proof (match_idx_rank _ _ _ _ _ _ Ei) as Hrank. rewrite Nat.sub_0_r in Hrank.
+        rewrite (nth_nth_error i trg x t Hn).
+        specialize (Hupd i t (cache_bump sch c x) Hn Hm ltac:(lia)).
+        destruct (upd_node sch o x t) as [t2 sg]. cbn [r_trg r_cache fst snd]. apply Hupd.
+        intros z Hz. rewrite cache_find_bump, count_match_snoc, (match_eq_comm sch z x).
+        destruct (match_eq sch x z) eqn:Exz.
+        -- rewrite (cache_find_equiv sch c x z Exz), Ec.
+           rewrite <- (count_match_equiv sch x z pre Exz), <- (count_match_equiv sch x z trg Exz).
+           split; [lia|]. destruct (Nat.eq_dec (S used) cnt) as [En|En]; [right; lia|left; lia].
+        -- rewrite Nat.add_0_r. apply (H2 z Hz).
+      * (* all equal instances are used up *)
+        subst used. rewrite Nat.eqb_refl.
+        destruct (dup_inst sch (d_sid x)) eqn:Ed; [|exfalso; apply Hne, Hnd; reflexivity].
+        cbn [r_trg r_cache fst snd]. split.
+        -- apply (E1_ins sch o p trg pre x HC H1 (AbsN_self sch o x)); [left; apply dup_not_sorted, Ed|lia].
+        -- intros z Hz. rewrite count_match_snoc, count_match_insert_eq, (match_eq_comm sch z x).
+           destruct (match_eq sch x z) eqn:Exz.
+           ++ rewrite (cache_find_equiv sch c x z Exz), Ec.
+              rewrite <- (count_match_equiv sch x z pre Exz), <- (count_match_equiv sch x z trg Exz).
+              split; [lia|right; lia].
+           ++ rewrite !Nat.add_0_r. apply (H2 z Hz).
+    + (* first instance of its class, a match exists: the first one is updated *)
+      rewrite E0.
+      destruct (match_idx_some _ _ _ _ _ _ E0) as [t [_ [Hn Hm]]]. rewrite Nat.sub_0_r in Hn.
+      pose proof (match_idx_rank _ _ _ _ _ _ E0) as Hrank. rewrite Nat.sub_0_r in Hrank.
+      rewrite (nth_nth_error i0 trg x t Hn).
+      specialize (Hupd i0 t ((x, count_match sch x trg, 1%nat) :: c) Hn Hm ltac:(lia)).
+      destruct (upd_node sch o x t) as [t2 sg]. cbn [r_trg r_cache fst snd]. apply Hupd.
+      pose proof (count_match_pos sch x trg t (nth_error_In _ _ Hn) Hm) as Hpos.
+      intros z Hz. cbn [cache_find]. rewrite count_match_snoc, (match_eq_comm sch z x).
+      destruct (match_eq sch x z) eqn:Exz.
+      * rewrite <- (count_match_equiv sch x z pre Exz), <- (count_match_equiv sch x z trg Exz), H2x.
+        split; [lia|]. destruct (Nat.eq_dec (count_match sch x trg) 1) as [En|En]; [right; lia|left; lia].
+      * rewrite Nat.add_0_r. apply (H2 z Hz).
+  - (* no match: the subtree is copied *)
+    pose proof (match_idx_none0 _ _ _ _ E0) as Hno.
+    assert (Hpre0 : count_match sch x pre = O).
+    { destruct (Nat.eq_dec (count_match sch x pre) 0) as [E|E]; [exact E|exfalso].
+      destruct (count_pos_split sch x pre E) as [pre1 [y [pre2 [-> Hxy]]]].
+      destruct (H1 pre1 y pre2 eq_refl) as [t' [Hk _]]; [rewrite (is_key_match sch x y Hxy); exact Hkx|].
+      destruct (kth_match sch y trg _ t' Hk) as [Hin Hyt].
+      pose proof (Hno t' Hin) as Hf. rewrite (match_eq_trans sch x y t' Hxy Hyt) in Hf. discriminate. }
+    assert (Hc0 : cache_find sch c x = None).
+    { destruct (cache_find sch c x) as [[cnt used]|]; [destruct H2x as [Hne _]; contradiction|reflexivity]. }
+    assert (Ht0 : count_match sch x trg = O) by (apply count_match_zero, Hno).
+    cbn [r_trg r_cache fst snd]. unfold dup_inst_next. rewrite Hc0. cbn [snd]. split.
+    + apply (E1_ins sch o p trg pre x HC H1 (AbsN_self sch o x)); [right; apply filter_none, Hno|lia].
+    + intros z Hz. cbn [cache_find]. rewrite count_match_snoc, !count_match_insert_eq, match_eq_refl, (match_eq_comm sch z x).
+      destruct (match_eq sch x z) eqn:Exz.
+      * rewrite <- (count_match_equiv sch x z pre Exz), <- (count_match_equiv sch x z trg Exz).
+        split; [lia|right; lia].
+      * rewrite !Nat.add_0_r. apply (H2 z Hz).
+Qed.
+
+Lemma uniq_first_count sch pre x suf :
+  UniqL sch (pre ++ x :: suf) -> dup_inst sch (d_sid x) = false -> count_match sch x pre = O.
+Proof.
+  intros HU Hd. destruct (inst_id_some sch x Hd) as [j Hj]. specialize (HU j).
+  rewrite filter_app, app_length in HU. cbn [filter] in HU. rewrite (has_id_self _ _ _ Hj) in HU. cbn [length] in HU.
+  unfold count_match. rewrite (filter_ext _ _ (match_eq_has_id sch x j Hj)). lia.
+Qed.
+
+Lemma E_nil sch o trg : E1 sch o trg [] /\ E2 sch trg [] [].
+Proof.
+  split.
+  - intros pre1 y pre2 E. destruct pre1; discriminate.
+  - intros z _. reflexivity.
+Qed.
+
+Lemma est_children sch o np p : forall suf pre trg c flag up,
+  Forall (est_stmt sch o) suf -> CanonAt sch p trg -> cache_inv sch c trg ->
+  Forall (CanonN sch p) suf -> Forall (UniqN sch) suf -> Forall (NoKl sch) suf -> UniqL sch (pre ++ suf) ->
+  E1 sch o trg pre -> E2 sch trg c pre ->
+  E1 sch o (fst (fst (merge_children sch (merge_sib sch o) np suf trg c flag up))) (pre ++ suf).
+Proof.
+  induction suf as [|y suf IH]; intros pre trg c flag up HI HC Hc HCs HNs HKs HU H1 H2; cbn [merge_children].
+  - rewrite app_nil_r. exact H1.
+  - inversion HI as [|? ? Iy HI']; subst. inversion HCs as [|? ? Cy HCs']; subst.
+    inversion HNs as [|? ? Ny HNs']; subst. inversion HKs as [|? ? Ky HKs']; subst.
+    replace (pre ++ y :: suf) with ((pre ++ [y]) ++ suf) in * by (rewrite <- app_assoc; reflexivity).
+    destruct (is_key sch (d_sid y)) eqn:Ek.
+    + destruct (E_key sch o trg c pre y Ek H1 H2) as [H1' H2']. apply IH; assumption.
+    + assert (Hnd : dup_inst sch (d_sid y) = false -> count_match sch y pre = O).
+      { apply (uniq_first_count sch pre y suf). rewrite <- app_assoc in HU. exact HU. }
+      destruct (est_step sch o p y trg c pre Iy HC Cy Ny Ky Ek Hnd H1 H2) as [H1' H2'].
+      destruct (merge_sib_sound sch o y p trg c Cy Hc) as [HS Hc'].
+      pose proof (MStep_canon sch o y p trg _ HC Cy HS) as HC'.
+      destruct (merge_sib sch o y trg c) as [[[trg' c'] sg] oth]. cbn [r_trg r_cache fst snd] in *.
+      destruct (apply_sigs np oth flag sg) as [flag' up']. apply IH; assumption.
+Qed.
+
+Lemma est_list sch o p : forall suf pre trg c,
+  Forall (est_stmt sch o) suf -> CanonAt sch p trg -> cache_inv sch c trg ->
+  Forall (CanonN sch p) suf -> Forall (UniqN sch) suf -> Forall (NoKl sch) suf -> UniqL sch (pre ++ suf) ->
+  Forall (fun y => is_key sch (d_sid y) = false) suf ->
+  E1 sch o trg pre -> E2 sch trg c pre ->
+  E1 sch o (merge_list sch o suf trg c) (pre ++ suf).
+Proof.
+  induction suf as [|y suf IH]; intros pre trg c HI HC Hc HCs HNs HKs HU Hkeys H1 H2; cbn [merge_list].
+  - rewrite app_nil_r. exact H1.
+  - inversion HI as [|? ? Iy HI']; subst. inversion HCs as [|? ? Cy HCs']; subst.
+    inversion HNs as [|? ? Ny HNs']; subst. inversion HKs as [|? ? Ky HKs']; subst. inversion Hkeys as [|? ? Ek Hkeys']; subst.
+    replace (pre ++ y :: suf) with ((pre ++ [y]) ++ suf) in * by (rewrite <- app_assoc; reflexivity).
+    assert (Hnd : dup_inst sch (d_sid y) = false -> count_match sch y pre = O).
+    { apply (uniq_first_count sch pre y suf). rewrite <- app_assoc in HU. exact HU. }
+    destruct (est_step sch o p y trg c pre Iy HC Cy Ny Ky Ek Hnd H1 H2) as [H1' H2'].
+    destruct (merge_sib_sound sch o y p trg c Cy Hc) as [HS Hc'].
+    pose proof (MStep_canon sch o y p trg _ HC Cy HS) as HC'.
+    destruct (merge_sib sch o y trg c) as [[[trg' c'] sg] oth]. cbn [r_trg r_cache fst snd] in *.
+    apply IH; assumption.
+Qed.
+
+Theorem est_all sch o x : est_stmt sch o x.
+Proof.
+  induction x as [s v d m ch IH] using dnode_ind'. intros p t Cx Nx Kx Ct Hm.
+  set (x := DN s v d m ch) in *.
+  pose proof (upd_node_facts sch o x t) as HF. cbn zeta in HF. destruct HF as [Hs [Hme [Hv [Hd Hc]]]].
+  set (t2 := fst (upd_node sch o x t)) in *.
+  pose proof (match_eq_sid _ _ _ Hm) as Hst.
+  apply AbsN_unfold. split.
+  - destruct (is_term sch s) eqn:Et.
+    + assert (Hch : ch = []) by (apply (CanonN_term_nil sch p x Cx); exact Et).
+      assert (Ht2 : t2 = fst (merge_value sch o x t)).
+      { pose proof (merge_value_shape sch o x t) as Hsh. cbn zeta in Hsh. destruct Hsh as [S1 [S2 S3]].
+        assert (Hxn : d_ch x = []) by (unfold x; cbn [d_ch]; exact Hch).
+        rewrite Hxn in Hc. cbn [merge_children fst] in Hc. specialize (Hd Hxn).
+        unfold new_val, new_dflt in *.
+        destruct t2 as [a1 a2 a3 a4 a5]. destruct (fst (merge_value sch o x t)) as [b1 b2 b3 b4 b5].
+        cbn [d_sid d_val d_dflt d_meta d_ch] in *. congruence. }
+      rewrite Ht2. apply merge_value_idem.
+    + apply merge_value_inner. rewrite Hs, Hst. exact Et.
+  - rewrite Hc. unfold x. cbn [d_ch].
+    assert (HCc : Forall (CanonN sch (Some s)) ch) by (unfold x in Cx; apply CanonN_unfold in Cx; apply Cx).
+    assert (HNc : UniqIds sch ch) by (unfold x in Nx; apply UniqN_unfold in Nx; exact Nx).
+    assert (HKc : Forall (NoKl sch) ch) by (unfold x in Kx; apply NoKl_unfold in Kx; apply Kx).
+    assert (Cat : CanonAt sch (Some s) (d_ch t)) by (unfold x in Hst; cbn [d_sid] in Hst; rewrite <- Hst; apply (CanonAt_children sch p t Ct)).
+    destruct (E_nil sch o (d_ch t)) as [H1 H2].
+    pose proof (est_children sch o (is_np_cont sch (d_sid t)) (Some s) ch [] (d_ch t) [] (new_dflt sch o x t) []
+                  IH Cat (cache_inv_nil sch (d_ch t)) HCc (proj2 HNc) HKc (proj1 HNc) H1 H2) as HE.
+    cbn [app] in HE. apply E1_AbsL. cbn [app]. intros pre1 y pre2 E _ Hy. apply (HE pre1 y pre2 E Hy).
+Qed.
+
+Lemma top_not_key sch y : CanonN sch None y -> is_key sch (d_sid y) = false.
+Proof.
+  destruct y as [s v d m ch]. rewrite CanonN_unfold. intros [[i [Hl [Hp _]]] _]. unfold is_key, sget. cbn [d_sid].
+  rewrite Hl, Hp. reflexivity.
+Qed.
+
+(* merging the same source again changes nothing - also with instances of config false leaf-lists (duplicates allowed)
+   in the source; only instances of key-less lists are excluded *)
+Theorem merge_idempotent_nokl sch o T S :
+  Canon sch T -> Canon sch S -> UniqIds sch S -> Forall (NoKl sch) S ->
+  merge sch o (merge sch o T S) S = merge sch o T S.
+Proof.
+  intros HT HS HUS HK. unfold merge at 1.
+  assert (Hkeys : Forall (fun y => is_key sch (d_sid y) = false) S).
+  { destruct HS as [_ HS]. apply Forall_forall. intros y Hy. rewrite Forall_forall in HS. apply top_not_key, HS, Hy. }
+  apply (fix2_list sch o (merge sch o T S) S [] []); [exact Hkeys| |apply CI2_nil].
+  assert (IHs : Forall (est_stmt sch o) S) by (apply Forall_forall; intros z _; apply est_all).
+  destruct (E_nil sch o T) as [H1 H2].
+  pose proof (est_list sch o None S [] T [] IHs HT (cache_inv_nil sch T) (proj2 HS) (proj2 HUS) HK (proj1 HUS) Hkeys H1 H2) as HE.
+  cbn [app] in HE. apply E1_AbsL. cbn [app]. intros pre1 y pre2 E _ Hy. apply (HE pre1 y pre2 E Hy).
+Qed.
+
+(* ------------------------------------------------------------------------------------------- *)
+(* L. idempotence at full strength: instances of key-less lists                                  *)
+(* ------------------------------------------------------------------------------------------- *)
+(* est_step again, with the two facts about an update as hypotheses and with the outcome of the step *)
+Definition outcome sch o (x : dnode) (trg : forest) (pre : list dnode) (trg' : forest) : Prop :=
+  (trg' = insert_node sch trg x /\ count_match sch x trg = count_match sch x pre) \/
+  (exists i t, nth_error trg i = Some t /\ match_eq sch x t = true /\
+               length (filter (match_eq sch x) (firstn i trg)) = count_match sch x pre /\
+               trg' = replace_nth i trg (fst (upd_node sch o x t))).
+
+Lemma est_step_gen sch o p x trg c pre :
+  (forall t, In t trg -> match_eq sch x t = true -> AbsN sch o x (fst (upd_node sch o x t))) ->
+  (forall t, In t trg -> match_eq sch x t = true -> forall z, match_eq sch z (fst (upd_node sch o x t)) = match_eq sch z t) ->
+  CanonAt sch p trg -> is_key sch (d_sid x) = false ->
+  (dup_inst sch (d_sid x) = false -> count_match sch x pre = O) ->
+  E1 sch o trg pre -> E2 sch trg c pre ->
+  E1 sch o (r_trg (merge_sib sch o x trg c)) (pre ++ [x]) /\
+  E2 sch (r_trg (merge_sib sch o x trg c)) (r_cache (merge_sib sch o x trg c)) (pre ++ [x]) /\
+  outcome sch o x trg pre (r_trg (merge_sib sch o x trg c)).
+Proof.
+  intros Hest Hcs HC Hkx Hnd H1 H2.
+  pose proof (H2 x Hkx) as H2x.
+  assert (Hupd : forall i t c', nth_error trg i = Some t -> match_eq sch x t = true ->
+                   length (filter (match_eq sch x) (firstn i trg)) = count_match sch x pre ->
+                   (forall z, is_key sch (d_sid z) = false ->
+                      match cache_find sch c' z with
+                      | None => count_match sch z (pre ++ [x]) = O
+                      | Some (cnt, used) =>
+                          count_match sch z (pre ++ [x]) <> O /\
+                          ((used = count_match sch z (pre ++ [x]) /\ (used < cnt)%nat /\ cnt = count_match sch z trg) \/
+                           (used = cnt /\ count_match sch z trg = count_match sch z (pre ++ [x])))
+                      end) ->
+                   let '(t2, sg) := upd_node sch o x t in
+                   E1 sch o (replace_nth i trg t2) (pre ++ [x]) /\ E2 sch (replace_nth i trg t2) c' (pre ++ [x]) /\
+                   outcome sch o x trg pre (replace_nth i trg t2)).
+  { intros i t c' Hn Hm Hrank HE2.
+    pose proof (Hcs t (nth_error_In _ _ Hn) Hm) as Hst.
+    pose proof (Hest t (nth_error_In _ _ Hn) Hm) as Hax.
+    assert (Hout : outcome sch o x trg pre (replace_nth i trg (fst (upd_node sch o x t)))).
+    { right. exists i, t. repeat split; assumption. }
+    destruct (upd_node sch o x t) as [t2 sg]. cbn [fst] in *. split; [|split; [|exact Hout]].
+    - apply (E1_upd sch o trg pre x i t t2 H1 Hn Hm Hrank Hst Hax).
+    - intros z Hz. specialize (HE2 z Hz). rewrite (count_match_replace_eq sch z i trg t t2 Hn (Hst z)). exact HE2. }
+  rewrite merge_sib_unfold. unfold choose.
+  destruct (match_idx sch x trg 0 0) as [i0|] eqn:E0.
+  - unfold dup_inst_next.
+    destruct (cache_find sch c x) as [[cnt used]|] eqn:Ec.
+    + destruct H2x as [Hne [[Hu [Hlt Hcnt]]|[Hu Hcnt]]].
+      * assert (Hneq : Nat.eqb used cnt = false) by (apply Nat.eqb_neq; lia). rewrite Hneq.
+        destruct (match_idx sch x trg used 0) as [i|] eqn:Ei;
+          [|exfalso; apply (match_idx_lt sch x trg used O); [lia|exact Ei]].
+        destruct (match_idx_some _ _ _ _ _ _ Ei) as [t [_ [Hn Hm]]]. rewrite Nat.sub_0_r in Hn.
+        pose proof (match_idx_rank _ _ _ _ _ _ Ei) as Hrank. rewrite Nat.sub_0_r in Hrank.
+        rewrite (nth_nth_error i trg x t Hn).
+        specialize (Hupd i t (cache_bump sch c x) Hn Hm ltac:(lia)).
+        destruct (upd_node sch o x t) as [t2 sg]. cbn [r_trg r_cache fst snd]. apply Hupd.
+        intros z Hz. rewrite cache_find_bump, count_match_snoc, (match_eq_comm sch z x).
+        destruct (match_eq sch x z) eqn:Exz.
+        -- rewrite (cache_find_equiv sch c x z Exz), Ec.
+           rewrite <- (count_match_equiv sch x z pre Exz), <- (count_match_equiv sch x z trg Exz).
+           split; [lia|]. destruct (Nat.eq_dec (S used) cnt) as [En|En]; [right; lia|left; lia].
+        -- rewrite Nat.add_0_r. apply (H2 z Hz).
+      * subst used. rewrite Nat.eqb_refl.
+        destruct (dup_inst sch (d_sid x)) eqn:Ed; [|exfalso; apply Hne, Hnd; reflexivity].
+        cbn [r_trg r_cache fst snd]. split; [|split; [|left; split; [reflexivity|exact Hcnt]]].
+        -- apply (E1_ins sch o p trg pre x HC H1 (AbsN_self sch o x)); [left; apply dup_not_sorted, Ed|lia].
+        -- intros z Hz. rewrite count_match_snoc, count_match_insert_eq, (match_eq_comm sch z x).
+           destruct (match_eq sch x z) eqn:Exz.
+           ++ rewrite (cache_find_equiv sch c x z Exz), Ec.
+              rewrite <- (count_match_equiv sch x z pre Exz), <- (count_match_equiv sch x z trg Exz).
+              split; [lia|right; lia].
+           ++ rewrite !Nat.add_0_r. apply (H2 z Hz).
+    + rewrite E0.
+      destruct (match_idx_some _ _ _ _ _ _ E0) as [t [_ [Hn Hm]]]. rewrite Nat.sub_0_r in Hn.
+      pose proof (match_idx_rank _ _ _ _ _ _ E0) as Hrank. rewrite Nat.sub_0_r in Hrank.
+      rewrite (nth_nth_error i0 trg x t Hn).
+      specialize (Hupd i0 t ((x, count_match sch x trg, 1%nat) :: c) Hn Hm ltac:(lia)).
+      destruct (upd_node sch o x t) as [t2 sg]. cbn [r_trg r_cache fst snd]. apply Hupd.
+      pose proof (count_match_pos sch x trg t (nth_error_In _ _ Hn) Hm) as Hpos.
+      intros z Hz. cbn [cache_find]. rewrite count_match_snoc, (match_eq_comm sch z x).
+      destruct (match_eq sch x z) eqn:Exz.
+      * rewrite <- (count_match_equiv sch x z pre Exz), <- (count_match_equiv sch x z trg Exz), H2x.
+        split; [lia|]. destruct (Nat.eq_dec (count_match sch x trg) 1) as [En|En]; [right; lia|left; lia].
+      * rewrite Nat.add_0_r. apply (H2 z Hz).
+  - pose proof (match_idx_none0 _ _ _ _ E0) as Hno.
+    assert (Hpre0 : count_match sch x pre = O).
+    { destruct (Nat.eq_dec (count_match sch x pre) 0) as [E|E]; [exact E|exfalso].
+      destruct (count_pos_split sch x pre E) as [pre1 [y [pre2 [-> Hxy]]]].
+      destruct (H1 pre1 y pre2 eq_refl) as [t' [Hk _]]; [rewrite (is_key_match sch x y Hxy); exact Hkx|].
+      destruct (kth_match sch y trg _ t' Hk) as [Hin Hyt].
+      pose proof (Hno t' Hin) as Hf. rewrite (match_eq_trans sch x y t' Hxy Hyt) in Hf. discriminate. }
+    assert (Hc0 : cache_find sch c x = None).
+    { destruct (cache_find sch c x) as [[cnt used]|]; [destruct H2x as [Hne _]; contradiction|reflexivity]. }
+    assert (Ht0 : count_match sch x trg = O) by (apply count_match_zero, Hno).
+    cbn [r_trg r_cache fst snd]. unfold dup_inst_next. rewrite Hc0. cbn [snd]. split; [|split; [|left; split; [reflexivity|lia]]].
+    + apply (E1_ins sch o p trg pre x HC H1 (AbsN_self sch o x)); [right; apply filter_none, Hno|lia].
+    + intros z Hz. cbn [cache_find]. rewrite count_match_snoc, !count_match_insert_eq, match_eq_refl, (match_eq_comm sch z x).
+      destruct (match_eq sch x z) eqn:Exz.
+      * rewrite <- (count_match_equiv sch x z pre Exz), <- (count_match_equiv sch x z trg Exz).
+        split; [lia|right; lia].
+      * rewrite !Nat.add_0_r. apply (H2 z Hz).
+Qed.
+
+(* --- fully equal nodes --- *)
+Lemma deq_list_sym a : forall b, deq_list a b = deq_list b a.
+Proof. induction a as [|x a IH]; intros [|y b]; cbn [deq_list]; try reflexivity. rewrite (deq_sym x y), IH. reflexivity. Qed.
+
+Lemma deq_list_trans a : forall b c, deq_list a b = true -> deq_list b c = true -> deq_list a c = true.
+Proof.
+  induction a as [|x a IH]; intros [|y b] [|z c] H1 H2; cbn [deq_list] in *; try discriminate; try reflexivity.
+  apply andb_true_iff in H1. destruct H1 as [A1 B1]. apply andb_true_iff in H2. destruct H2 as [A2 B2].
+  rewrite (deq_trans x y z A1 A2), (IH b c B1 B2). reflexivity.
+Qed.
+
+Lemma deq_list_app a1 b1 a2 b2 :
+  deq_list a1 b1 = true -> deq_list a2 b2 = true -> deq_list (a1 ++ a2) (b1 ++ b2) = true.
+Proof.
+  revert b1. induction a1 as [|x a1 IH]; intros [|y b1] H1 H2; cbn [deq_list app] in *; try discriminate; [exact H2|].
+  apply andb_true_iff in H1. destruct H1 as [A B]. rewrite A, (IH b1 B H2). reflexivity.
+Qed.
+
+Lemma deq_list_length a : forall b, deq_list a b = true -> length a = length b.
+Proof. induction a as [|x a IH]; intros [|y b] H; cbn [deq_list length] in *; try discriminate; [reflexivity|]. apply andb_true_iff in H. f_equal. apply IH, H. Qed.
+
+Lemma find_sid_deq a : forall b k, deq_list a b = true -> child_val a k = child_val b k.
+Proof.
+  unfold child_val, find_sid. induction a as [|x a IH]; intros [|y b] k H; cbn [deq_list find] in *; try discriminate; [reflexivity|].
+  apply andb_true_iff in H. destruct H as [Hxy H]. rewrite deq_unfold in Hxy.
+  apply andb_true_iff in Hxy. destruct Hxy as [Hxy _]. apply andb_true_iff in Hxy. destruct Hxy as [Hs Hv].
+  apply N.eqb_eq in Hs. apply beq_bytes_eq in Hv. rewrite Hs. destruct (d_sid y =? k); [exact Hv|apply IH, H].
+Qed.
+
+Lemma deq_inst_id sch a b : deq a b = true -> inst_id sch a = inst_id sch b.
+Proof.
+  rewrite deq_unfold. intro H. apply andb_true_iff in H. destruct H as [H Hc]. apply andb_true_iff in H. destruct H as [Hs Hv].
+  apply N.eqb_eq in Hs. apply beq_bytes_eq in Hv. unfold inst_id, key_vals. rewrite Hs, Hv.
+  destruct (dup_inst sch (d_sid b)); [reflexivity|]. destruct (kind_of sch (d_sid b)); try reflexivity.
+  f_equal. f_equal. apply map_ext. intro k. apply find_sid_deq, Hc.
+Qed.
+
+Lemma deq_match sch a b : deq a b = true -> match_eq sch a b = true.
+Proof.
+  intro H. pose proof H as H0. rewrite deq_unfold in H0. apply andb_true_iff in H0. destruct H0 as [H0 _].
+  apply andb_true_iff in H0. destruct H0 as [Hs _]. apply N.eqb_eq in Hs.
+  destruct (dup_inst sch (d_sid a)) eqn:Ed.
+  - rewrite (match_eq_dup sch a b Ed), H, <- Hs, N.eqb_refl. reflexivity.
+  - destruct (inst_id_some sch a Ed) as [j Hj]. rewrite (match_eq_has_id sch a j Hj). apply has_id_inst.
+    rewrite <- (deq_inst_id sch a b H). exact Hj.
+Qed.
+
+Lemma class_stable_of_deq sch t t2 : deq t t2 = true -> forall z, match_eq sch z t2 = match_eq sch z t.
+Proof.
+  intros H z. rewrite (match_eq_comm sch z t2), (match_eq_comm sch z t).
+  symmetry. apply (match_eq_equiv sch t t2 (deq_match sch t t2 H)).
+Qed.
+
+Lemma count_deq_list sch z a : forall b, deq_list a b = true -> count_match sch z a = count_match sch z b.
+Proof.
+  unfold count_match. induction a as [|x a IH]; intros [|y b] H; cbn [deq_list filter] in *; try discriminate; [reflexivity|].
+  apply andb_true_iff in H. destruct H as [Hxy H]. rewrite <- (class_stable_of_deq sch x y Hxy z).
+  destruct (match_eq sch z y); cbn [length]; rewrite (IH b H); reflexivity.
+Qed.
+
+Lemma filter_firstn_mono {A} (P : A -> bool) f : forall i q t,
+  (i < q)%nat -> nth_error f i = Some t -> P t = true ->
+  (length (filter P (firstn i f)) < length (filter P (firstn q f)))%nat.
+Proof.
+  induction f as [|a f IH]; intros [|i] [|q] t Hlt Hn Ht; cbn [nth_error firstn filter length] in *; try discriminate; try lia.
+  - inversion Hn; subst a. rewrite Ht. cbn [length]. lia.
+  - specialize (IH i q t ltac:(lia) Hn Ht). destruct (P a); cbn [length]; lia.
+Qed.
+
+Lemma rank_unique {A} (P : A -> bool) f i q t t' :
+  nth_error f i = Some t -> P t = true -> nth_error f q = Some t' -> P t' = true ->
+  length (filter P (firstn i f)) = length (filter P (firstn q f)) -> i = q.
+Proof.
+  intros Hi Pi Hq Pq E. destruct (Nat.lt_trichotomy i q) as [H|[H|H]]; [|exact H|].
+  - pose proof (filter_firstn_mono P f i q t H Hi Pi). lia.
+  - pose proof (filter_firstn_mono P f q i t' H Hq Pq). lia.
+Qed.
+
+Lemma new_val_deq sch o x t : beq_bytes (d_val x) (d_val t) = true -> new_val sch o x t = d_val t.
+Proof.
+  intro H. apply beq_bytes_eq in H. unfold new_val, merge_value. destruct t as [ts tv td tm tch]. cbn [d_sid d_val d_dflt set_val set_dflt] in *.
+  destruct (kind_of sch ts); try reflexivity.
+  - destruct (mo_defaults o || negb (d_dflt x)); [|reflexivity].
+    destruct (td && negb (d_dflt x)); [|destruct (negb td && d_dflt x)]; destruct (mo_with_flags o); cbn; congruence.
+  - destruct (td && negb (d_dflt x)); reflexivity.
+  - rewrite H, beq_bytes_refl. reflexivity.
+Qed.
+
+Definition est2_stmt sch o (x : dnode) : Prop :=
+  forall p t, CanonN sch p x -> UniqN sch x -> CanonN sch p t -> match_eq sch x t = true ->
+              AbsN sch o x (fst (upd_node sch o x t)).
+Definition cs_stmt sch o (x : dnode) : Prop :=
+  forall p t, CanonN sch p x -> UniqN sch x -> CanonN sch p t -> match_eq sch x t = true ->
+              forall z, match_eq sch z (fst (upd_node sch o x t)) = match_eq sch z t.
+(* updating a node with a fully equal source node gives a fully equal node (only default flags can change) *)
+Definition dp_stmt sch o (x : dnode) : Prop :=
+  forall p t, CanonN sch p x -> UniqN sch x -> CanonN sch p t -> deq x t = true ->
+              deq t (fst (upd_node sch o x t)) = true.
+Definition all3 sch o (x : dnode) : Prop := est2_stmt sch o x /\ cs_stmt sch o x /\ dp_stmt sch o x.
+
+Lemma replace_nth_app {A} (a : list A) t b x : replace_nth (length a) (a ++ t :: b) x = a ++ x :: b.
+Proof. induction a as [|y a IH]; cbn [length app replace_nth]; [reflexivity|]. rewrite IH. reflexivity. Qed.
+
+Lemma firstn_length_app {A} (a b : list A) : firstn (length a) (a ++ b) = a.
+Proof. induction a as [|y a IH]; cbn [length app firstn]; [reflexivity|]. rewrite IH. reflexivity. Qed.
+
+Lemma nth_error_length_app {A} (a : list A) t b : nth_error (a ++ t :: b) (length a) = Some t.
+Proof. induction a as [|y a IH]; cbn [length app nth_error]; [reflexivity|exact IH]. Qed.
+
+Lemma level_gen sch o np p : forall suf pre trg c flag up,
+  Forall (all3 sch o) suf -> CanonAt sch p trg -> cache_inv sch c trg ->
+  Forall (CanonN sch p) suf -> Forall (UniqN sch) suf -> UniqL sch (pre ++ suf) ->
+  E1 sch o trg pre -> E2 sch trg c pre ->
+  let b := fst (fst (merge_children sch (merge_sib sch o) np suf trg c flag up)) in
+  E1 sch o b (pre ++ suf) /\
+  (forall tpre tsuf, trg = tpre ++ tsuf -> deq_list pre tpre = true -> deq_list suf tsuf = true ->
+                     deq_list (pre ++ suf) b = true).
+Proof.
+  induction suf as [|y suf IH]; intros pre trg c flag up HI HC Hc HCs HNs HU H1 H2; cbn [merge_children]; cbn zeta.
+  - rewrite app_nil_r. split; [exact H1|]. intros tpre tsuf -> Hp Hs. destruct tsuf; [|discriminate]. rewrite app_nil_r. exact Hp.
+  - inversion HI as [|? ? Iy HI']; subst. inversion HCs as [|? ? Cy HCs']; subst. inversion HNs as [|? ? Ny HNs']; subst.
+    replace (pre ++ y :: suf) with ((pre ++ [y]) ++ suf) in * by (rewrite <- app_assoc; reflexivity).
+    destruct (is_key sch (d_sid y)) eqn:Ek.
+    + destruct (E_key sch o trg c pre y Ek H1 H2) as [H1' H2'].
+      destruct (IH (pre ++ [y]) trg c flag up HI' HC Hc HCs' HNs' HU H1' H2') as [R1 R2]. split; [exact R1|].
+      intros tpre tsuf -> Hp Hs. destruct tsuf as [|tq tsuf]; [discriminate|]. cbn [deq_list] in Hs.
+      apply andb_true_iff in Hs. destruct Hs as [Hq Hs].
+      apply (R2 (tpre ++ [tq]) tsuf); [rewrite <- app_assoc; reflexivity| |exact Hs].
+      apply deq_list_app; [exact Hp|cbn [deq_list]; rewrite Hq; reflexivity].
+    + destruct Iy as [Iest [Ics Idp]].
+      assert (Hnd : dup_inst sch (d_sid y) = false -> count_match sch y pre = O).
+      { apply (uniq_first_count sch pre y suf). rewrite <- app_assoc in HU. exact HU. }
+      destruct (est_step_gen sch o p y trg c pre) as [H1' [H2' Hout]]; try assumption.
+      { intros t Hin Hm. apply (Iest p t Cy Ny (CanonAt_In sch p trg t HC Hin) Hm). }
+      { intros t Hin Hm. apply (Ics p t Cy Ny (CanonAt_In sch p trg t HC Hin) Hm). }
+      destruct (merge_sib_sound sch o y p trg c Cy Hc) as [HS Hc'].
+      pose proof (MStep_canon sch o y p trg _ HC Cy HS) as HC'.
+      destruct (merge_sib sch o y trg c) as [[[trg' c'] sg] oth]. cbn [r_trg r_cache fst snd] in *.
+      destruct (apply_sigs np oth flag sg) as [flag' up'].
+      destruct (IH (pre ++ [y]) trg' c' flag' (up ++ up') HI' HC' Hc' HCs' HNs' HU H1' H2') as [R1 R2]. split; [exact R1|].
+      intros tpre tsuf Etrg Hp Hs. destruct tsuf as [|tq tsuf]; [discriminate|]. cbn [deq_list] in Hs.
+      apply andb_true_iff in Hs. destruct Hs as [Hq Hs].
+      assert (Hcp : count_match sch y tpre = count_match sch y pre) by (symmetry; apply count_deq_list, Hp).
+      assert (Hmq : match_eq sch y tq = true) by (apply deq_match, Hq).
+      destruct Hout as [[_ Hcnt]|[i [t [Hn [Hm [Hrank ->]]]]]].
+      * exfalso. rewrite Etrg, count_match_app in Hcnt. unfold count_match at 2 in Hcnt. cbn [filter] in Hcnt.
+        rewrite Hmq in Hcnt. cbn [length] in Hcnt. lia.
+      * assert (Hiq : i = length tpre).
+        { apply (rank_unique (match_eq sch y) trg i (length tpre) t tq Hn Hm); [rewrite Etrg; apply nth_error_length_app|exact Hmq|].
+          rewrite Hrank, Etrg, firstn_length_app, <- Hcp. reflexivity. }
+        subst i. rewrite Etrg, nth_error_length_app in Hn. inversion Hn; subst t.
+        assert (Ctq : CanonN sch p tq) by (apply (CanonAt_In sch p trg tq HC); rewrite Etrg; apply in_or_app; right; left; reflexivity).
+        pose proof (Idp p tq Cy Ny Ctq Hq) as Hd2.
+        apply (R2 (tpre ++ [fst (upd_node sch o y tq)]) tsuf).
+        -- rewrite Etrg, replace_nth_app, <- app_assoc. reflexivity.
+        -- apply deq_list_app; [exact Hp|]. cbn [deq_list]. rewrite (deq_trans y tq _ Hq Hd2). reflexivity.
+        -- exact Hs.
+Qed.
+
+Theorem all3_all sch o x : all3 sch o x.
+Proof.
+  induction x as [s v d m ch IH] using dnode_ind'.
+  set (x := DN s v d m ch) in *.
+  (* the children level, for any matching t *)
+  assert (LG : forall p t, CanonN sch p x -> UniqN sch x -> CanonN sch p t -> d_sid t = s ->
+               let b := d_ch (fst (upd_node sch o x t)) in
+               E1 sch o b ch /\ (deq_list ch (d_ch t) = true -> deq_list ch b = true)).
+  { intros p t Cx Nx Ct Hst. cbn zeta.
+    pose proof (upd_node_facts sch o x t) as HF. cbn zeta in HF. destruct HF as [_ [_ [_ [_ Hc]]]]. rewrite Hc.
+    assert (HCc : Forall (CanonN sch (Some s)) ch) by (unfold x in Cx; apply CanonN_unfold in Cx; apply Cx).
+    assert (HNc : UniqIds sch ch) by (unfold x in Nx; apply UniqN_unfold in Nx; exact Nx).
+    assert (Cat : CanonAt sch (Some s) (d_ch t)) by (rewrite <- Hst; apply (CanonAt_children sch p t Ct)).
+    destruct (E_nil sch o (d_ch t)) as [H1 H2].
+    destruct (level_gen sch o (is_np_cont sch (d_sid t)) (Some s) ch [] (d_ch t) [] (new_dflt sch o x t) []
+                IH Cat (cache_inv_nil sch (d_ch t)) HCc (proj2 HNc) (proj1 HNc) H1 H2) as [R1 R2].
+    unfold x. cbn [d_ch app] in *. split; [exact R1|]. intro Hd. apply (R2 [] (d_ch t) eq_refl eq_refl Hd). }
+  assert (DP : dp_stmt sch o x).
+  { intros p t Cx Nx Ct Hd.
+    pose proof Hd as Hd0. rewrite deq_unfold in Hd0. apply andb_true_iff in Hd0. destruct Hd0 as [Hd0 Hdc].
+    apply andb_true_iff in Hd0. destruct Hd0 as [Hds Hdv]. apply N.eqb_eq in Hds.
+    pose proof (upd_node_facts sch o x t) as HF. cbn zeta in HF. destruct HF as [Hs [_ [Hv _]]].
+    destruct (LG p t Cx Nx Ct (eq_sym Hds)) as [_ R2]. cbn zeta in R2.
+    rewrite deq_unfold, Hs, N.eqb_refl, Hv, (new_val_deq sch o x t Hdv), beq_bytes_refl. cbn [andb].
+    unfold x in Hdc. cbn [d_ch] in Hdc.
+    apply (deq_list_trans (d_ch t) ch _); [rewrite deq_list_sym; exact Hdc|apply R2, Hdc]. }
+  assert (CS : cs_stmt sch o x).
+  { intros p t Cx Nx Ct Hm z.
+    destruct (dup_inst sch s) eqn:Ed.
+    - apply class_stable_of_deq. apply (DP p t Cx Nx Ct).
+      rewrite (match_eq_dup sch x t Ed) in Hm. apply andb_true_iff in Hm. apply Hm.
+    - apply (upd_class_stable sch o p x t Cx); [|exact Hm]. unfold nokl, x. cbn [d_sid]. rewrite Ed. reflexivity. }
+  split; [|split; assumption].
+  intros p t Cx Nx Ct Hm.
+  pose proof (upd_node_facts sch o x t) as HF. cbn zeta in HF. destruct HF as [Hs [Hme [Hv [Hd Hc]]]].
+  pose proof (match_eq_sid _ _ _ Hm) as Hst.
+  apply AbsN_unfold. split.
+  - destruct (is_term sch s) eqn:Et.
+    + assert (Hch : ch = []) by (apply (CanonN_term_nil sch p x Cx); exact Et).
+      assert (Ht2 : fst (upd_node sch o x t) = fst (merge_value sch o x t)).
+      { pose proof (merge_value_shape sch o x t) as Hsh. cbn zeta in Hsh. destruct Hsh as [S1 [S2 S3]].
+        assert (Hxn : d_ch x = []) by (unfold x; cbn [d_ch]; exact Hch).
+        rewrite Hxn in Hc. cbn [merge_children fst] in Hc. specialize (Hd Hxn).
+        unfold new_val, new_dflt in *.
+        destruct (fst (upd_node sch o x t)) as [a1 a2 a3 a4 a5]. destruct (fst (merge_value sch o x t)) as [b1 b2 b3 b4 b5].
+        cbn [d_sid d_val d_dflt d_meta d_ch] in *. congruence. }
+      rewrite Ht2. apply merge_value_idem.
+    + apply merge_value_inner. rewrite Hs, Hst. exact Et.
+  - destruct (LG p t Cx Nx Ct Hst) as [R1 _]. cbn zeta in R1. unfold x at 2. cbn [d_ch].
+    apply E1_AbsL. cbn [app]. intros pre1 y pre2 E _ Hy. apply (R1 pre1 y pre2 E Hy).
+Qed.
+
+Lemma est_list_gen sch o p : forall suf pre trg c,
+  CanonAt sch p trg -> cache_inv sch c trg ->
+  Forall (CanonN sch p) suf -> Forall (UniqN sch) suf -> UniqL sch (pre ++ suf) ->
+  Forall (fun y => is_key sch (d_sid y) = false) suf ->
+  E1 sch o trg pre -> E2 sch trg c pre ->
+  E1 sch o (merge_list sch o suf trg c) (pre ++ suf).
+Proof.
+  induction suf as [|y suf IH]; intros pre trg c HC Hc HCs HNs HU Hkeys H1 H2; cbn [merge_list].
+  - rewrite app_nil_r. exact H1.
+  - inversion HCs as [|? ? Cy HCs']; subst. inversion HNs as [|? ? Ny HNs']; subst. inversion Hkeys as [|? ? Ek Hkeys']; subst.
+    replace (pre ++ y :: suf) with ((pre ++ [y]) ++ suf) in * by (rewrite <- app_assoc; reflexivity).
+    assert (Hnd : dup_inst sch (d_sid y) = false -> count_match sch y pre = O).
+    { apply (uniq_first_count sch pre y suf). rewrite <- app_assoc in HU. exact HU. }
+    destruct (all3_all sch o y) as [Iest [Ics _]].
+    destruct (est_step_gen sch o p y trg c pre) as [H1' [H2' _]]; try assumption.
+    { intros t Hin Hm. apply (Iest p t Cy Ny (CanonAt_In sch p trg t HC Hin) Hm). }
+    { intros t Hin Hm. apply (Ics p t Cy Ny (CanonAt_In sch p trg t HC Hin) Hm). }
+    destruct (merge_sib_sound sch o y p trg c Cy Hc) as [HS Hc'].
+    pose proof (MStep_canon sch o y p trg _ HC Cy HS) as HC'.
+    destruct (merge_sib sch o y trg c) as [[[trg' c'] sg] oth]. cbn [r_trg r_cache fst snd] in *.
+    apply IH; assumption.
+Qed.
+
+(* merging the same source again changes nothing: values, order, default flags, metadata - every canonical source with
+   unique identities, duplicate-instance lists (key-less lists, config false leaf-lists) included *)
+Theorem merge_idempotent_full sch o T S :
+  Canon sch T -> Canon sch S -> UniqIds sch S ->
+  merge sch o (merge sch o T S) S = merge sch o T S.
+Proof.
+  intros HT HS HUS. unfold merge at 1.
+  assert (Hkeys : Forall (fun y => is_key sch (d_sid y) = false) S).
+  { destruct HS as [_ HS]. apply Forall_forall. intros y Hy. rewrite Forall_forall in HS. apply top_not_key, HS, Hy. }
+  apply (fix2_list sch o (merge sch o T S) S [] []); [exact Hkeys| |apply CI2_nil].
+  destruct (E_nil sch o T) as [H1 H2].
+  pose proof (est_list_gen sch o None S [] T [] HT (cache_inv_nil sch T) (proj2 HS) (proj2 HUS) (proj1 HUS) Hkeys H1 H2) as HE.
+  cbn [app] in HE. apply E1_AbsL. cbn [app]. intros pre1 y pre2 E _ Hy. apply (HE pre1 y pre2 E Hy).
+Qed.
+
+(* ------------------------------------------------------------------------------------------- *)
+(* M. the source content is in the result: positional form, full strength                        *)
+(* ------------------------------------------------------------------------------------------- *)
+Lemma AbsL_E1 sch o R : forall suf pre,
+  AbsL sch o R pre suf ->
+  forall s1 z s2, suf = s1 ++ z :: s2 -> is_key sch (d_sid z) = false ->
+                  exists u, kth sch z R (count_match sch z (pre ++ s1)) = Some u /\ AbsN sch o z u.
+Proof.
+  induction suf as [|y suf IH]; intros pre HA s1 z s2 E Hz; [destruct s1; discriminate|].
+  cbn [AbsL] in HA. destruct HA as [Hy HA]. destruct s1 as [|a s1]; cbn [app] in E; inversion E; subst.
+  - rewrite app_nil_r. destruct Hy as [Hy|Hy]; [congruence|exact Hy].
+  - destruct (IH (pre ++ [a]) HA s1 z s2 eq_refl Hz) as [u Hu]. rewrite <- app_assoc in Hu. exists u. exact Hu.
+Qed.
+
+(* what "t has absorbed y" means for the children: the k-th child of y of a class meets the k-th child of t of it *)
+Lemma AbsN_children sch o y t c1 z c2 :
+  AbsN sch o y t -> d_ch y = c1 ++ z :: c2 -> is_key sch (d_sid z) = false ->
+  exists u, kth sch z (d_ch t) (count_match sch z c1) = Some u /\ match_eq sch z u = true /\ AbsN sch o z u.
+Proof.
+  intros HA E Hz. apply AbsN_unfold in HA. destruct HA as [_ HL].
+  destruct (AbsL_E1 sch o (d_ch t) (d_ch y) [] HL c1 z c2 E Hz) as [u [Hk Ha]]. cbn [app] in Hk.
+  exists u. split; [exact Hk|]. split; [apply (kth_match sch z _ _ u Hk)|exact Ha].
+Qed.
+
+(* ... and for values: an explicit (or, with LYD_MERGE_DEFAULTS, any) term has its value in t; an instance of a
+   duplicate-instance list is fully equal to t *)
+Lemma AbsN_term_val sch o y t :
+  match_eq sch y t = true -> AbsN sch o y t -> is_term sch (d_sid y) = true -> expl o y -> d_val t = d_val y.
+Proof.
+  intros Hm HA Ht He. apply AbsN_unfold in HA. destruct HA as [Hmv _].
+  destruct (dup_inst sch (d_sid y)) eqn:Ed.
+  - rewrite (match_eq_dup sch y t Ed) in Hm. apply andb_true_iff in Hm. destruct Hm as [_ Hm].
+    rewrite deq_unfold in Hm. apply andb_true_iff in Hm. destruct Hm as [Hm _]. apply andb_true_iff in Hm. destruct Hm as [_ Hm].
+    apply beq_bytes_eq in Hm. congruence.
+  - destruct (inst_id_some sch y Ed) as [j Hj]. rewrite (match_eq_has_id sch y j Hj) in Hm.
+    pose proof (new_val_term sch o y t j Hj Hm Ht He) as Hv. unfold new_val in Hv. rewrite Hmv in Hv. exact Hv.
+Qed.
+
+Lemma match_dup_deq sch y t : dup_inst sch (d_sid y) = true -> match_eq sch y t = true -> deq y t = true.
+Proof. intros Hd Hm. rewrite (match_eq_dup sch y t Hd) in Hm. apply andb_true_iff in Hm. apply Hm. Qed.
+
+(* every source subtree is absorbed by the merged tree: the k-th top-level source node of a class (= identity, or full
+   equality for duplicate-instance lists) meets the k-th node of that class in the result, which has absorbed it - so the
+   result has at least as many equal instances as the source, each with the source's explicit values, recursively *)
+Theorem merge_absorbs sch o T S :
+  Canon sch T -> Canon sch S -> UniqIds sch S ->
+  forall pre1 y pre2, S = pre1 ++ y :: pre2 ->
+  exists t', kth sch y (merge sch o T S) (count_match sch y pre1) = Some t' /\ match_eq sch y t' = true /\ AbsN sch o y t'.
+Proof.
+  intros HT HS HUS pre1 y pre2 E.
+  assert (Hkeys : Forall (fun y => is_key sch (d_sid y) = false) S).
+  { destruct HS as [_ HS']. apply Forall_forall. intros z Hz. rewrite Forall_forall in HS'. apply top_not_key, HS', Hz. }
+  destruct (E_nil sch o T) as [H1 H2].
+  pose proof (est_list_gen sch o None S [] T [] HT (cache_inv_nil sch T) (proj2 HS) (proj2 HUS) (proj1 HUS) Hkeys H1 H2) as HE.
+  cbn [app] in HE. unfold merge.
+  assert (Hy : is_key sch (d_sid y) = false).
+  { rewrite Forall_forall in Hkeys. apply Hkeys. rewrite E. apply in_or_app. right. left. reflexivity. }
+  destruct (HE pre1 y pre2 E Hy) as [t' [Hk Ha]]. exists t'. split; [exact Hk|]. split; [apply (kth_match sch y _ _ t' Hk)|exact Ha].
+Qed.
+
+(* --- the target's instances of duplicate-instance lists are kept --- *)
+(* shape of one step of the function, without any invariant *)
+Lemma step_shape sch o x trg c :
+  r_trg (merge_sib sch o x trg c) = insert_node sch trg x \/
+  exists i t, nth_error trg i = Some t /\ match_eq sch x t = true /\
+              r_trg (merge_sib sch o x trg c) = replace_nth i trg (fst (upd_node sch o x t)).
+Proof.
+  rewrite merge_sib_unfold. destruct (choose sch c x trg) as [[k c1] fi].
+  destruct (match k with Some k' => match_idx sch x trg k' 0 | None => None end) as [i|] eqn:Es.
+  - destruct k as [k'|]; [|discriminate]. destruct (match_idx_some _ _ _ _ _ _ Es) as [t [_ [Hn Hm]]]. rewrite Nat.sub_0_r in Hn.
+    right. exists i, t. rewrite (nth_nth_error i trg x t Hn). destruct (upd_node sch o x t) as [t2 sg]. repeat split; assumption.
+  - left. reflexivity.
+Qed.
+
+Lemma step_keeps_dup sch o p x trg c u :
+  CanonAt sch p trg -> CanonN sch p x -> UniqN sch x -> In u trg -> dup_inst sch (d_sid u) = true ->
+  exists u', In u' (r_trg (merge_sib sch o x trg c)) /\ deq u u' = true.
+Proof.
+  intros HC Cx Nx Hu Hd. destruct (step_shape sch o x trg c) as [->|[i [t [Hn [Hm ->]]]]].
+  - exists u. split; [apply In_insert_old, Hu|apply deq_refl].
+  - destruct (In_replace_nth_old i trg (fst (upd_node sch o x t)) t u Hn Hu) as [E|E]; [|exists u; split; [exact E|apply deq_refl]].
+    subst u. exists (fst (upd_node sch o x t)). split; [apply (In_replace_nth_new i trg _ t Hn)|].
+    destruct (all3_all sch o x) as [_ [_ Hdp]].
+    apply (Hdp p t Cx Nx (CanonAt_In sch p trg t HC (nth_error_In _ _ Hn))).
+    apply (match_dup_deq sch x t); [rewrite <- (match_eq_sid _ _ _ Hm); exact Hd|exact Hm].
+Qed.
+
+Lemma list_keeps_dup sch o p : forall l trg c u,
+  CanonAt sch p trg -> cache_inv sch c trg -> Forall (CanonN sch p) l -> Forall (UniqN sch) l ->
+  In u trg -> dup_inst sch (d_sid u) = true ->
+  exists u', In u' (merge_list sch o l trg c) /\ deq u u' = true.
+Proof.
+  induction l as [|x l IH]; intros trg c u HC Hc HCs HNs Hu Hd; cbn [merge_list]; [exists u; split; [exact Hu|apply deq_refl]|].
+  inversion HCs as [|? ? Cx HCs']; subst. inversion HNs as [|? ? Nx HNs']; subst.
+  destruct (step_keeps_dup sch o p x trg c u HC Cx Nx Hu Hd) as [u1 [Hu1 Hd1]].
+  destruct (merge_sib_sound sch o x p trg c Cx Hc) as [HS Hc'].
+  pose proof (MStep_canon sch o x p trg _ HC Cx HS) as HC'.
+  destruct (merge_sib sch o x trg c) as [[[trg' c'] sg] oth]. cbn [r_trg r_cache fst snd] in *.
+  assert (Hd1s : dup_inst sch (d_sid u1) = true).
+  { rewrite deq_unfold in Hd1. apply andb_true_iff in Hd1. destruct Hd1 as [Hd1 _]. apply andb_true_iff in Hd1. destruct Hd1 as [Hs _].
+    apply N.eqb_eq in Hs. rewrite <- Hs. exact Hd. }
+  destruct (IH trg' c' u1 HC' Hc' HCs' HNs' Hu1 Hd1s) as [u' [Hu' Hd']].
+  exists u'. split; [exact Hu'|apply (deq_trans u u1 u' Hd1 Hd')].
+Qed.
+
+(* every top-level target instance of a duplicate-instance list has a fully equal instance in the merged tree (it is
+   kept as it is or updated by an equal source instance, which changes only default flags) *)
+Theorem merge_keeps_dup_top sch o T S u :
+  Canon sch T -> Canon sch S -> UniqIds sch S -> In u T -> dup_inst sch (d_sid u) = true ->
+  exists u', In u' (merge sch o T S) /\ deq u u' = true.
+Proof.
+  intros HT HS HUS Hu Hd. unfold merge.
+  apply (list_keeps_dup sch o None S T [] u HT (cache_inv_nil sch T) (proj2 HS) (proj2 HUS) Hu Hd).
+Qed.
+
+(* ------------------------------------------------------------------------------------------- *)
+(* N. level-wise view of the function: duplicate instances below an addressable node are kept    *)
+(* ------------------------------------------------------------------------------------------- *)
+Lemma insert_node_length sch f n : length (insert_node sch f n) = S (length f).
+Proof. rewrite <- (Permutation_length (insert_node_perm sch f n)). reflexivity. Qed.
+
+Lemma nonkeys_all sch l : Forall (fun y => is_key sch (d_sid y) = false) l -> nonkeys sch l = l.
+Proof.
+  induction l as [|y l IH]; intro H; cbn [nonkeys filter]; [reflexivity|]. inversion H; subst.
+  rewrite H2. cbn [negb]. f_equal. apply IH. assumption.
+Qed.
+
+Lemma merge_list_children sch o np l : forall trg c flag up,
+  Forall (fun y => is_key sch (d_sid y) = false) l ->
+  merge_list sch o l trg c = fst (fst (merge_children sch (merge_sib sch o) np l trg c flag up)).
+Proof.
+  induction l as [|y l IH]; intros trg c flag up H; cbn [merge_list merge_children]; [reflexivity|].
+  inversion H; subst. rewrite H2. destruct (merge_sib sch o y trg c) as [[[trg' c'] sg] oth].
+  destruct (apply_sigs np oth flag sg) as [flag' up']. apply IH. assumption.
+Qed.
+
+Lemma children_keeps_dup sch o p np : forall suf trg c flag up u,
+  CanonAt sch p trg -> cache_inv sch c trg -> Forall (CanonN sch p) suf -> Forall (UniqN sch) suf ->
+  In u trg -> dup_inst sch (d_sid u) = true ->
+  exists u', In u' (fst (fst (merge_children sch (merge_sib sch o) np suf trg c flag up))) /\ deq u u' = true.
+Proof.
+  induction suf as [|x l IH]; intros trg c flag up u HC Hc HCs HNs Hu Hd; cbn [merge_children]; [exists u; split; [exact Hu|apply deq_refl]|].
+  inversion HCs as [|? ? Cx HCs']; subst. inversion HNs as [|? ? Nx HNs']; subst.
+  destruct (is_key sch (d_sid x)); [apply IH; assumption|].
+  destruct (step_keeps_dup sch o p x trg c u HC Cx Nx Hu Hd) as [u1 [Hu1 Hd1]].
+  destruct (merge_sib_sound sch o x p trg c Cx Hc) as [HS Hc'].
+  pose proof (MStep_canon sch o x p trg _ HC Cx HS) as HC'.
+  destruct (merge_sib sch o x trg c) as [[[trg' c'] sg] oth]. cbn [r_trg r_cache fst snd] in *.
+  destruct (apply_sigs np oth flag sg) as [flag' up'].
+  assert (Hd1s : dup_inst sch (d_sid u1) = true).
+  { rewrite deq_unfold in Hd1. apply andb_true_iff in Hd1. destruct Hd1 as [Hd1 _]. apply andb_true_iff in Hd1. destruct Hd1 as [Hs _].
+    apply N.eqb_eq in Hs. rewrite <- Hs. exact Hd. }
+  destruct (IH trg' c' flag' (up ++ up') u1 HC' Hc' HCs' HNs' Hu1 Hd1s) as [u' [Hu' Hd']].
+  exists u'. split; [exact Hu'|apply (deq_trans u u1 u' Hd1 Hd')].
+Qed.
+
+Lemma lookup_path_sid sch : forall q f g n m,
+  lookup_path sch f q = Some n -> lookup_path sch g q = Some m -> d_sid n = d_sid m.
+Proof.
+  induction q as [|j q IH]; intros f g n m H1 H2; [discriminate|]. rewrite lookup_path_cons in H1, H2.
+  destruct (find_inst sch f j) as [x|] eqn:Ex; [|discriminate]. destruct (find_inst sch g j) as [y|] eqn:Ey; [|discriminate].
+  destruct q as [|j2 q'].
+  - inversion H1; subst. inversion H2; subst.
+    destruct (find_inst_some _ _ _ _ Ex) as [_ Hx]. destruct (find_inst_some _ _ _ _ Ey) as [_ Hy].
+    rewrite (has_id_sid _ _ _ Hx), (has_id_sid _ _ _ Hy). reflexivity.
+  - apply (IH (d_ch x) (d_ch y) n m H1 H2).
+Qed.
+
+Section LevelFn.
+  Variable sch : schema.
+  Variable o : mopts.
+  Hypothesis Hsch : schema_okb sch = true.
+
+  Let mc np l trg c flag up := fst (fst (merge_children sch (merge_sib sch o) np l trg c flag up)).
+
+  Lemma level_fn : forall q p suf trg c np flag up nT nS,
+    CanonAt sch p trg -> UniqIds sch trg -> cache_inv sch c trg ->
+    Forall (CanonN sch p) suf -> Forall (UniqN sch) suf -> UniqL sch (nonkeys sch suf) ->
+    lookup_path sch trg q = Some nT -> lookup_path sch (nonkeys sch suf) q = Some nS -> is_term sch (d_sid nS) = false ->
+    exists nR pp, lookup_path sch (mc np suf trg c flag up) q = Some nR /\
+                  CanonN sch pp nT /\ CanonN sch pp nS /\ UniqN sch nS /\
+                  exists np' fl', d_ch nR = mc np' (d_ch nS) (d_ch nT) [] fl' [].
+  Proof.
+    induction q as [|j q' IHq]; intros p suf; [intros trg c np flag up nT nS _ _ _ _ _ _ H; discriminate|].
+    induction suf as [|x l IHl]; intros trg c np flag up nT nS Ha HUa Hc HC HN HUl Hqa Hql Hterm;
+      [cbn [nonkeys filter] in Hql; rewrite lookup_path_cons in Hql; discriminate|].
+    inversion HC as [|? ? Cx HC']; subst. inversion HN as [|? ? Nx HN']; subst.
+    unfold mc. cbn [merge_children]. cbn [nonkeys filter] in Hql, HUl.
+    destruct (is_key sch (d_sid x)) eqn:Ek; cbn [negb] in Hql, HUl.
+    - apply (IHl trg c np flag up nT nS); assumption.
+    - destruct (merge_sib_sound sch o x p trg c Cx Hc) as [HS Hc'].
+      pose proof (MStep_canon sch o x p trg _ Ha Cx HS) as Cm.
+      pose proof (MStep_uniq sch o x p trg _ Cx Nx HUa HS) as Um.
+      pose proof (step_shape sch o x trg c) as Hshape.
+      destruct (merge_sib sch o x trg c) as [[[trg' c'] sg] oth]. cbn [r_trg r_cache fst snd] in *.
+      destruct (apply_sigs np oth flag sg) as [flag' up'].
+      fold (mc np l trg' c' flag' (up ++ up')).
+      destruct (has_id sch j x) eqn:Ex.
+      + apply has_id_inst in Ex.
+        rewrite lookup_path_cons in Hql. unfold find_inst in Hql. cbn [find] in Hql. rewrite (has_id_self _ _ _ Ex) in Hql.
+        rewrite lookup_path_cons in Hqa.
+        destruct (find_inst sch trg j) as [t0|] eqn:Et0; [|discriminate].
+        destruct (find_inst_some _ _ _ _ Et0) as [Ht0in Ht0id].
+        (* the rest of the source siblings does not touch the instance j *)
+        assert (Hrest : find_inst sch (mc np l trg' c' flag' (up ++ up')) j = find_inst sch trg' j).
+        { pose proof (merge_children_fold sch o np p l trg' c' flag' (up ++ up') HC' Hc') as HF.
+          apply MFoldK_MFold in HF.
+          apply (MFold_find_other sch o p (nonkeys sch l) trg' _ j (Forall_nonkeys sch l HC') HF). intros z Hz E.
+          pose proof (UniqL_head_other sch x (nonkeys sch l) j HUl (has_id_self _ _ _ Ex) z Hz) as Hf.
+          rewrite (has_id_self _ _ _ E) in Hf. discriminate. }
+        rewrite lookup_path_cons, Hrest.
+        (* the step is an update of t0 *)
+        destruct Hshape as [Hins|[i [t [Hn [Hmt ->]]]]].
+        * exfalso. rewrite MStep_unfold in HS. destruct HS as [[Hno _]|[i [t [t2 [Hn [_ [E _]]]]]]].
+          -- destruct Hno as [Hno|Hd]; [|apply inst_id_none in Hd; congruence].
+             specialize (Hno t0 Ht0in). rewrite (match_eq_has_id sch x j Ex) in Hno. congruence.
+          -- rewrite Hins in E. apply (f_equal (@length dnode)) in E. rewrite insert_node_length, replace_nth_length in E. lia.
+        * assert (Htj : has_id sch j t = true) by (rewrite <- (match_eq_has_id sch x j Ex); exact Hmt).
+          pose proof (uniq_find sch trg t j (proj1 HUa) (nth_error_In _ _ Hn) Htj) as Hf. rewrite Et0 in Hf. inversion Hf; subst t0.
+          pose proof (upd_node_facts sch o x t) as HF. cbn zeta in HF. destruct HF as [Hs [_ [Hv [_ Hch]]]].
+          set (t2 := fst (upd_node sch o x t)) in *.
+          assert (Hp : parents_ok sch x) by (apply (CanonN_parents_ok sch p), Cx).
+          assert (HCx : Forall (CanonN sch (Some (d_sid x))) (d_ch x)) by (destruct x as [s v d mt ch]; apply CanonN_unfold in Cx; apply Cx).
+          assert (HFold : MFoldK sch (MStep sch o) (d_ch x) (d_ch t) (d_ch t2)).
+          { rewrite Hch. apply (merge_children_fold sch o _ (Some (d_sid x))); [exact HCx|apply cache_inv_nil]. }
+          assert (Hid : inst_id sch t2 = inst_id sch t) by (apply (upd_inst_id sch o x t t2 Hp Hmt Hs Hv HFold)).
+          rewrite (find_replace_uniq sch trg i t t2 j (proj1 HUa) Hn Htj Hid).
+          assert (Ct : CanonN sch p t) by (apply (CanonAt_In sch p trg t Ha), Ht0in).
+          assert (Hst : d_sid t = d_sid x) by (apply (match_eq_sid _ _ _ Hmt)).
+          destruct q' as [|j2 q''].
+          -- inversion Hqa; subst nT. inversion Hql; subst nS. exists t2, p. split; [reflexivity|].
+             repeat split; try assumption. exists (is_np_cont sch (d_sid t)), (new_dflt sch o x t). exact Hch.
+          -- rewrite Hch.
+             apply (IHq (Some (d_sid x)) (d_ch x) (d_ch t) [] (is_np_cont sch (d_sid t)) (new_dflt sch o x t) [] nT nS).
+             ++ rewrite <- Hst. apply (CanonAt_children sch p t Ct).
+             ++ apply UniqN_unfold. destruct HUa as [_ HUa]. rewrite Forall_forall in HUa. apply HUa, Ht0in.
+             ++ apply cache_inv_nil.
+             ++ exact HCx.
+             ++ apply UniqN_unfold in Nx. apply Nx.
+             ++ apply UniqL_nonkeys. apply UniqN_unfold in Nx. apply Nx.
+             ++ exact Hqa.
+             ++ apply (lookup_path_nonkeys_some sch Hsch p x (j2 :: q'') nS Cx Nx Hql Hterm).
+             ++ exact Hterm.
+      + assert (Hne : inst_id sch x <> Some j) by (intro E; rewrite (has_id_self _ _ _ E) in Ex; discriminate).
+        apply (IHl trg' c' np flag' (up ++ up') nT nS Cm Um Hc' HC' HN' (UniqL_tail sch x _ HUl)); [| |exact Hterm].
+        * rewrite lookup_path_cons in *. rewrite (MStep_find_other sch o x p trg trg' j Cx HS Hne). exact Hqa.
+        * rewrite lookup_path_cons in *. unfold find_inst in *. cbn [find] in Hql. rewrite Ex in Hql. exact Hql.
+  Qed.
+
+  (* an instance of a duplicate-instance list below a target node that the source also has at the same instance path has a
+     fully equal instance below the merged node: it is kept as it is or updated by an equal source instance *)
+  Theorem merge_keeps_dup_below T S path nT nS u :
+    Canon sch T -> Canon sch S -> UniqIds sch T -> UniqIds sch S ->
+    lookup_path sch T path = Some nT -> lookup_path sch S path = Some nS -> is_term sch (d_sid nS) = false ->
+    In u (d_ch nT) -> dup_inst sch (d_sid u) = true ->
+    exists nR u', lookup_path sch (merge sch o T S) path = Some nR /\ In u' (d_ch nR) /\ deq u u' = true.
+  Proof.
+    intros HT HS HUT HUS H1 H2 H3 Hu Hd.
+    assert (Hkeys : Forall (fun y => is_key sch (d_sid y) = false) S).
+    { destruct HS as [_ HS']. apply Forall_forall. intros z Hz. rewrite Forall_forall in HS'. apply top_not_key, HS', Hz. }
+    unfold merge. rewrite (merge_list_children sch o false S T [] false [] Hkeys).
+    destruct (level_fn path None S T [] false false [] nT nS HT HUT (cache_inv_nil sch T) (proj2 HS) (proj2 HUS)) as [nR [pp [HR [CT [CS [NS [np' [fl' Hch]]]]]]]];
+      try assumption.
+    - rewrite (nonkeys_all sch S Hkeys). apply HUS.
+    - rewrite (nonkeys_all sch S Hkeys). exact H2.
+    - exists nR. unfold mc in *.
+      assert (Hsid : d_sid nT = d_sid nS).
+      { apply (lookup_path_sid sch path T S nT nS H1 H2). }
+      destruct (children_keeps_dup sch o (Some (d_sid nS)) np' (d_ch nS) (d_ch nT) [] fl' [] u) as [u' [Hu' Hd']]; try assumption.
+      + rewrite <- Hsid. apply (CanonAt_children sch pp nT CT).
+      + apply cache_inv_nil.
+      + destruct nS as [s v d mt ch]. apply CanonN_unfold in CS. apply CS.
+      + apply UniqN_unfold in NS. apply NS.
+      + exists u'. rewrite Hch. repeat split; assumption.
+  Qed.
+End LevelFn.
